@@ -1,8 +1,10 @@
 (** Proofs about Model/Teardown.v (C12): the reference counts equal the number of live holders in
     every reachable state; the log of any teardown replays against the resource monitor
     ([teardown_memory_safe]); after every object has been dropped everything is released except
-    in the two named classes ([teardown_releases_everything]); witnesses for both classes; the
-    repaired drain has no exception for operation states. *)
+    in the named classes ([teardown_releases_everything]: H13, H14 and — new — H28, an operation
+    still in flight after the Ring was dropped); witnesses for the classes; the repaired drain has
+    no exception for the completion queue's size; the two seeded regressions C12-c and C01-f
+    release a state while its request is in flight ([…_refuted] witnesses by computation). *)
 From Coq Require Import Permutation.
 From A10 Require Import Base.Word Base.Run Model.Teardown.
 Local Open Scope nat_scope.
@@ -26,6 +28,16 @@ Proof. revert i; induction l as [|x l IH]; intros [|i] H; cbn in *; try lia; aut
 Lemma nth_upd_other {A} i j (f : A -> A) l d : i <> j -> nth j (upd i f l) d = nth j l d.
 Proof.
   revert i j; induction l as [|x l IH]; intros [|i] [|j] H; cbn; auto; try congruence.
+Qed.
+
+Lemma nth_upd_gen {A} i j (f : A -> A) l d :
+  nth j (upd i f l) d = if (j =? i) && (i <? length l) then f (nth i l d) else nth j l d.
+Proof.
+  destruct (Nat.eqb_spec j i) as [->|Hne]; cbn [andb].
+  - destruct (Nat.ltb_spec i (length l)).
+    + apply nth_upd_same; assumption.
+    + rewrite upd_out by lia. reflexivity.
+  - apply nth_upd_other. congruence.
 Qed.
 
 Lemma count_if_upd {A} (P : A -> bool) i f l d :
@@ -80,6 +92,7 @@ Definition count_sop o q := count_if (is_sop o) q.
 Definition count_close h q := count_if (is_close h) q.
 Definition count_cop o c := count_if (is_cop o) c.
 Definition count_in o l := count_if (fun y => y =? o) l.
+Definition is_cmore (o : nat) (c : cqe) : bool := match c with CMore o' => o' =? o | _ => false end.
 
 Lemma count_if_app {A} (P : A -> bool) a b : count_if P (a ++ b) = count_if P a + count_if P b.
 Proof. unfold count_if. rewrite filter_app, app_length. reflexivity. Qed.
@@ -125,6 +138,22 @@ Proof. unfold post. destruct (k_ovf k); [destruct (_ <? _)|]; reflexivity. Qed.
 Lemma post_inflight cqn k c : k_inflight (post cqn k c) = k_inflight k.
 Proof. unfold post. destruct (k_ovf k); [destruct (_ <? _)|]; reflexivity. Qed.
 
+Lemma post_first cqn k c : k_first (post cqn k c) = k_first k.
+Proof. unfold post. destruct (k_ovf k); [destruct (_ <? _)|]; reflexivity. Qed.
+
+(** The completions posted and not processed, in the order they will be processed: [post]
+    appends, moving entries from the overflow list into the ring changes nothing. *)
+Definition pend (k : kern) : list cqe := k_cq k ++ k_ovf k.
+
+Lemma post_pend cqn k c : pend (post cqn k c) = pend k ++ [c].
+Proof.
+  unfold post, pend. destruct (k_ovf k) as [|c0 r] eqn:E; [destruct (_ <? _)|]; cbn [k_cq k_ovf];
+    rewrite ?app_nil_r, <- ?app_assoc; reflexivity.
+Qed.
+
+Lemma flush_pend cqn k : pend (flush_overflow cqn k) = pend k.
+Proof. unfold pend, flush_overflow. cbn [k_cq k_ovf]. rewrite <- app_assoc, firstn_skipn. reflexivity. Qed.
+
 Lemma post_cop cqn k c o :
   count_cop o (k_cq (post cqn k c)) + count_cop o (k_ovf (post cqn k c))
   = count_cop o (k_cq k) + count_cop o (k_ovf k) + b2n (is_cop o c).
@@ -159,66 +188,81 @@ Proof.
   apply (f_equal (@length cqe)) in H. rewrite app_length in H. lia.
 Qed.
 
-Lemma execute_sqq cqn k q : k_sqq (execute cqn k q) = k_sqq k.
-Proof. destruct q; cbn; auto. destruct (mem_nat _ _); rewrite post_sqq; reflexivity. Qed.
+Lemma cancelable_mem d k o : cancelable d k o = true -> mem_nat o (k_inflight k) = true.
+Proof. unfold cancelable. intros H. apply andb_prop in H. destruct H as [H _]. apply andb_prop in H. tauto. Qed.
 
-Lemma execute_owed cqn k q o : owedk (execute cqn k q) o = owedk k o + b2n (is_sop o q).
+Lemma cancel_req_sqq d k o : k_sqq (cancel_req d k o) = k_sqq k.
+Proof. unfold cancel_req. destruct (mem_nat o (k_first k)); rewrite ?post_sqq; reflexivity. Qed.
+
+Lemma cancel_req_owed d k o o' :
+  mem_nat o (k_inflight k) = true -> owedk (cancel_req d k o) o' = owedk k o'.
+Proof.
+  intros M. unfold cancel_req. destruct (mem_nat o (k_first k)); rewrite ?post_owed;
+    unfold owedk; cbn [k_sqq k_inflight k_cq k_ovf is_cop b2n];
+    (destruct (Nat.eqb_spec o o') as [<-|Hne]; cbn [b2n];
+     [pose proof (count_remove_same o _ M); lia|rewrite (count_remove_other o o') by auto; lia]).
+Qed.
+
+Lemma execute_sqq d k q : k_sqq (execute d k q) = k_sqq k.
+Proof. destruct q; cbn; auto. destruct (cancelable _ _ _); [apply cancel_req_sqq|rewrite post_sqq; reflexivity]. Qed.
+
+Lemma execute_owed d k q o : owedk (execute d k q) o = owedk k o + b2n (is_sop o q).
 Proof.
   destruct q as [h|o1|o1]; cbn [execute is_sop b2n].
   - lia.
   - unfold owedk, count_in. cbn [k_sqq k_inflight k_cq k_ovf]. rewrite count_if_app, count_if_single. lia.
-  - destruct (mem_nat o1 (k_inflight k)) eqn:M; rewrite post_owed.
-    + unfold owedk. cbn [k_sqq k_inflight k_cq k_ovf is_cop].
-      destruct (Nat.eqb_spec o1 o) as [->|Hne]; cbn [b2n].
-      * pose proof (count_remove_same o _ M). lia.
-      * rewrite (count_remove_other o1 o) by auto. lia.
-    + cbn. lia.
+  - destruct (cancelable d k o1) eqn:M.
+    + rewrite cancel_req_owed by (apply (cancelable_mem d); exact M). lia.
+    + rewrite post_owed. cbn. lia.
 Qed.
 
-Lemma fold_execute_sqq cqn q k : k_sqq (fold_left (execute cqn) q k) = k_sqq k.
+Lemma fold_execute_sqq d q k : k_sqq (fold_left (execute d) q k) = k_sqq k.
 Proof. revert k; induction q as [|x q IH]; intros k; cbn; auto. rewrite IH. apply execute_sqq. Qed.
 
-Lemma fold_execute_owed cqn q k o : owedk (fold_left (execute cqn) q k) o = owedk k o + count_sop o q.
+Lemma fold_execute_owed d q k o : owedk (fold_left (execute d) q k) o = owedk k o + count_sop o q.
 Proof.
   revert k; induction q as [|x q IH]; intros k; cbn [fold_left].
   - unfold count_sop, count_if. cbn. lia.
   - rewrite IH, execute_owed. unfold count_sop. rewrite count_if_cons. lia.
 Qed.
 
-Lemma consume_all_sqq cqn k : k_sqq (consume_all cqn k) = [].
+Lemma consume_all_sqq d k : k_sqq (consume_all d k) = [].
 Proof. unfold consume_all. rewrite fold_execute_sqq. reflexivity. Qed.
 
-Lemma consume_all_owed cqn k o : owedk (consume_all cqn k) o = owedk k o.
+Lemma consume_all_owed d k o : owedk (consume_all d k) o = owedk k o.
 Proof.
   unfold consume_all. rewrite fold_execute_owed. unfold owedk. cbn [k_sqq k_inflight k_cq k_ovf].
   change (count_sop o []) with 0. lia.
 Qed.
 
-Lemma consume_all_nil cqn k : k_sqq k = [] -> consume_all cqn k = k.
+Lemma consume_all_nil d k : k_sqq k = [] -> consume_all d k = k.
 Proof. unfold consume_all. intros E. rewrite E. cbn. destruct k; cbn in *; subst; reflexivity. Qed.
 
-Lemma fold_post_sqq cqn l k : k_sqq (fold_left (fun k o => post cqn k (COp o)) l k) = k_sqq k.
-Proof. revert k; induction l as [|x l IH]; intros k; cbn; auto. rewrite IH. apply post_sqq. Qed.
-Lemma fold_post_inflight cqn l k : k_inflight (fold_left (fun k o => post cqn k (COp o)) l k) = k_inflight k.
-Proof. revert k; induction l as [|x l IH]; intros k; cbn; auto. rewrite IH. apply post_inflight. Qed.
+(** One step of the blanket cancellation. *)
+Definition sc_step (d : dims) (k : kern) (o : nat) : kern := if cancelable d k o then cancel_req d k o else k.
 
-Lemma fold_post_owed cqn l k o :
-  owedk (fold_left (fun k o => post cqn k (COp o)) l k) o = owedk k o + count_in o l.
+Lemma sc_step_sqq d k o : k_sqq (sc_step d k o) = k_sqq k.
+Proof. unfold sc_step. destruct (cancelable d k o); [apply cancel_req_sqq|reflexivity]. Qed.
+
+Lemma sc_step_owed d k o o' : owedk (sc_step d k o) o' = owedk k o'.
 Proof.
-  revert k; induction l as [|x l IH]; intros k; cbn [fold_left].
-  - unfold count_in, count_if. cbn. lia.
-  - rewrite IH, post_owed. unfold count_in. rewrite count_if_cons. cbn [is_cop]. lia.
+  unfold sc_step. destruct (cancelable d k o) eqn:M; [|reflexivity].
+  apply cancel_req_owed, (cancelable_mem d), M.
 Qed.
 
-Lemma sync_cancel_sqq cqn k : k_sqq (sync_cancel cqn k) = k_sqq k.
-Proof. unfold sync_cancel. rewrite fold_post_sqq. reflexivity. Qed.
-Lemma sync_cancel_inflight cqn k : k_inflight (sync_cancel cqn k) = [].
-Proof. unfold sync_cancel. rewrite fold_post_inflight. reflexivity. Qed.
-Lemma sync_cancel_owed cqn k o : owedk (sync_cancel cqn k) o = owedk k o.
-Proof.
-  unfold sync_cancel. rewrite fold_post_owed. unfold owedk. cbn [k_sqq k_inflight k_cq k_ovf].
-  change (count_in o []) with 0. lia.
-Qed.
+Lemma fold_sc_sqq d l k : k_sqq (fold_left (sc_step d) l k) = k_sqq k.
+Proof. revert k; induction l as [|x l IH]; intros k; cbn; auto. rewrite IH. apply sc_step_sqq. Qed.
+
+Lemma fold_sc_owed d l k o : owedk (fold_left (sc_step d) l k) o = owedk k o.
+Proof. revert k; induction l as [|x l IH]; intros k; cbn [fold_left]; auto. rewrite IH. apply sc_step_owed. Qed.
+
+Lemma sync_cancel_fold d k : sync_cancel d k = fold_left (sc_step d) (k_inflight k) k.
+Proof. reflexivity. Qed.
+
+Lemma sync_cancel_sqq d k : k_sqq (sync_cancel d k) = k_sqq k.
+Proof. rewrite sync_cancel_fold. apply fold_sc_sqq. Qed.
+Lemma sync_cancel_owed d k o : owedk (sync_cancel d k) o = owedk k o.
+Proof. rewrite sync_cancel_fold. apply fold_sc_owed. Qed.
 
 (** Nothing queued, nothing in flight, nothing posted: nothing is owed. *)
 Lemma owedk_empty k o : k_sqq k = [] -> k_inflight k = [] -> k_cq k = [] -> k_ovf k = [] -> owedk k o = 0.
@@ -242,7 +286,28 @@ Definition expect (x : op) : nat :=
 
 Definition op_ok (x : op) : Prop :=
   (o_fut x = true -> o_box x = true /\ o_st x <> Dropped) /\
-  (o_fut x = false -> o_box x = true -> o_st x = Dropped).
+  (o_fut x = false -> o_st x <> Running /\ (o_box x = true -> o_st x = Dropped)).
+
+(** An operation that still waits for a completion has its state allocated. *)
+Lemma op_ok_expect x : op_ok x -> 1 <= expect x -> o_box x = true.
+Proof.
+  intros [A B] E. unfold expect in E. destruct (o_fut x) eqn:F.
+  - apply A. reflexivity.
+  - destruct (B eq_refl) as [NR _]. destruct (o_st x); try lia; try congruence.
+    destruct (o_box x); [reflexivity|cbn in E; lia].
+Qed.
+
+(** Every posted result completion ([CMore], F_MORE set) of a two-step operation is followed by
+    that operation's final completion: later in the queue, or still to come (in flight). *)
+Fixpoint covered (infl : list nat) (l : list cqe) : Prop :=
+  match l with
+  | [] => True
+  | c :: r => match c with CMore o => 1 <= count_cop o r + count_in o infl | _ => True end /\ covered infl r
+  end.
+
+(** Requests of operation [o] accepted by the kernel whose final completion is not processed. *)
+Definition due3 (infl : list nat) (cq ovf : list cqe) (o : nat) : nat :=
+  count_in o infl + count_cop o cq + count_cop o ovf.
 
 Record wf_rest (s : state) : Prop := {
   wf_pool : forall p, p_rc (get_pool s p) = pool_refs s p;
@@ -250,7 +315,8 @@ Record wf_rest (s : state) : Prop := {
   wf_owed : forall o, owedk (s_k s) o = expect (get_op s o);
   wf_op : forall o, op_ok (get_op s o);
   wf_close : forall h, count_close h (k_sqq (s_k s)) + b2n (nth h (s_fds s) false) <= 1;
-  wf_close_range : forall h, 1 <= count_close h (k_sqq (s_k s)) -> h < length (s_fds s)
+  wf_close_range : forall h, 1 <= count_close h (k_sqq (s_k s)) -> h < length (s_fds s);
+  wf_more : covered (k_inflight (s_k s)) (pend (s_k s))
 }.
 
 (** The stored count equals the number of live holders, and the rest. *)
@@ -266,7 +332,8 @@ Definition mon_of (s : state) : mon :=
      m_reg := map (fun p => 0 <? p_rc p) (s_pools s);
      m_pring := map (fun p => 0 <? p_rc p) (s_pools s);
      m_pbufs := map (fun p => 0 <? p_rc p) (s_pools s);
-     m_desc := desc_of (s_fds s) (k_sqq (s_k s)) |}.
+     m_desc := desc_of (s_fds s) (k_sqq (s_k s));
+     m_due := map (due3 (k_inflight (s_k s)) (k_cq (s_k s)) (k_ovf (s_k s))) (seq 0 (length (s_ops s))) |}.
 
 Lemma desc_of_length fds q : length (desc_of fds q) = length fds.
 Proof. unfold desc_of. rewrite map_length, seq_length. reflexivity. Qed.
@@ -313,7 +380,7 @@ Lemma dec_shared_rc s : s_rc s = S (holders s) -> s_rc (fst (dec_shared s)) = ho
 Proof. intros H. cbn. rewrite H. reflexivity. Qed.
 
 Lemma wf_rest_set_rc s n : wf_rest s -> wf_rest (set_rc s n).
-Proof. intros [? ? ? ? ? ?]. constructor; assumption. Qed.
+Proof. intros [? ? ? ? ? ? ?]. constructor; assumption. Qed.
 
 Lemma dec_shared_wf s : s_rc s = S (holders s) -> wf_rest s -> wf (fst (dec_shared s)).
 Proof. intros H R. split; [apply dec_shared_rc, H|]. cbn. apply wf_rest_set_rc, R. Qed.
@@ -394,7 +461,7 @@ Proof.
   { pose proof (wf_close _ R h) as W. rewrite L in W. cbn in W. lia. }
   unfold sq_add. destruct (length (k_sqq (s_k s)) <? d_sqn (s_d s)) eqn:Room.
   - (* CLOSE queued *)
-    set (k1 := {| k_sqq := k_sqq (s_k s) ++ [SClose h]; k_inflight := k_inflight (s_k s); k_cq := k_cq (s_k s); k_ovf := k_ovf (s_k s) |}).
+    set (k1 := {| k_sqq := k_sqq (s_k s) ++ [SClose h]; k_inflight := k_inflight (s_k s); k_first := k_first (s_k s); k_cq := k_cq (s_k s); k_ovf := k_ovf (s_k s) |}).
     set (s1 := set_fds (set_k s k1) (upd h (fun _ => false) (s_fds (set_k s k1)))).
     rewrite (surjective_pairing (dec_shared s1)).
     change ([LUse MSq; LUse MSqes; LUse MSq] ++ [] ++ snd (dec_shared s1))
@@ -403,7 +470,7 @@ Proof.
     + subst s1 k1. cbn [s_rc set_fds set_k]. rewrite Hrc. unfold holders.
       cbn [s_ring s_clones s_fds s_ops s_pools set_fds set_k].
       pose proof (count_id_clr h (s_fds s) L). unfold clr in *. lia.
-    + destruct R as [Rp Rb Ro Rop Rc Rr]. constructor.
+    + destruct R as [Rp Rb Ro Rop Rc Rr Rm]. constructor.
       * exact Rp.
       * intros o h' F O. subst s1 k1. cbn [s_fds set_fds set_k]. change (upd h (fun _ => false) (s_fds s)) with (clr h (s_fds s)).
         rewrite nth_clr. destruct (Nat.eqb_spec h' h) as [->|Hne]; [exfalso; exact (Hok o F O)|]. exact (Rb o h' F O).
@@ -417,8 +484,9 @@ Proof.
         -- destruct (Nat.eqb_spec h h'); [congruence|]. cbn. lia.
       * intros h'. subst s1 k1. cbn [s_k s_fds set_fds set_k k_sqq]. rewrite upd_length, count_close_snoc. cbn [is_close].
         destruct (Nat.eqb_spec h h') as [<-|Hne]; [intros _; exact Hh|]. cbn. rewrite Nat.add_0_r. apply Rr.
+      * exact Rm.
     + assert (mon_of s1 = mon_of s) as ->.
-      { unfold mon_of. subst s1 k1. cbn [s_rc s_ring s_ops s_pools s_fds s_k set_fds set_k k_sqq]. f_equal.
+      { unfold mon_of. subst s1 k1. cbn [s_rc s_ring s_ops s_pools s_fds s_k set_fds set_k k_sqq k_inflight k_cq k_ovf]. f_equal.
         change (upd h (fun _ => false) (s_fds s)) with (clr h (s_fds s)).
         apply bool_list_ext; [rewrite !desc_of_length; apply clr_length|]. intros i.
         rewrite !desc_of_nth.
@@ -437,7 +505,7 @@ Proof.
     apply finish_with_dec; [reflexivity| | |].
     + subst s1. cbn [s_rc set_fds]. rewrite Hrc. unfold holders. cbn [s_ring s_clones s_fds s_ops s_pools set_fds].
       pose proof (count_id_clr h (s_fds s) L). unfold clr in *. lia.
-    + destruct R as [Rp Rb Ro Rop Rc Rr]. constructor.
+    + destruct R as [Rp Rb Ro Rop Rc Rr Rm]. constructor.
       * exact Rp.
       * intros o h' F O. subst s1. cbn [s_fds set_fds]. change (upd h (fun _ => false) (s_fds s)) with (clr h (s_fds s)).
         rewrite nth_clr. destruct (Nat.eqb_spec h' h) as [->|Hne]; [exfalso; exact (Hok o F O)|]. exact (Rb o h' F O).
@@ -446,10 +514,11 @@ Proof.
       * intros h'. subst s1. cbn [s_k s_fds set_fds]. change (upd h (fun _ => false) (s_fds s)) with (clr h (s_fds s)).
         rewrite nth_clr. specialize (Rc h'). destruct (h' =? h); cbn; lia.
       * intros h'. subst s1. cbn [s_k s_fds set_fds]. rewrite upd_length. apply Rr.
+      * exact Rm.
     + cbn [replay replay1 mapped]. unfold mon_of at 1. cbn [m_sq]. rewrite Pos.
       assert (nth h (m_desc (mon_of s)) false = true) as D.
       { unfold mon_of. cbn [m_desc]. rewrite desc_of_nth by apply (wf_close_range _ R). rewrite L. reflexivity. }
-      rewrite D. f_equal. unfold mon_of. subst s1. cbn [s_rc s_ring s_ops s_pools s_fds s_k set_fds m_sq m_sqes m_cq m_fd m_box m_reg m_pring m_pbufs m_desc].
+      rewrite D. f_equal. unfold mon_of, set_desc. subst s1. cbn [s_rc s_ring s_ops s_pools s_fds s_k set_fds m_sq m_sqes m_cq m_fd m_box m_reg m_pring m_pbufs m_desc m_due].
       f_equal. change (upd h (fun _ => false) (s_fds s)) with (clr h (s_fds s)).
       apply bool_list_ext; [rewrite clr_length, !desc_of_length; symmetry; apply clr_length|]. intros i.
       rewrite nth_clr, !desc_of_nth.
@@ -478,6 +547,21 @@ Lemma desc_of_ext fds q q' : (forall h, count_close h q' = count_close h q) -> d
 Proof. intros H. unfold desc_of. apply map_ext. intros h. rewrite H. reflexivity. Qed.
 
 Definition st_running (st : ost) : bool := match st with Running => true | _ => false end.
+
+Lemma nth_seq_map (f : nat -> nat) n o : nth o (map f (seq 0 n)) 0 = if o <? n then f o else 0.
+Proof.
+  destruct (Nat.ltb_spec o n) as [Hlt|Hge].
+  - rewrite (nth_indep _ 0 (f 0)) by (rewrite map_length, seq_length; exact Hlt).
+    rewrite map_nth, seq_nth by exact Hlt. reflexivity.
+  - apply nth_overflow. rewrite map_length, seq_length. exact Hge.
+Qed.
+
+Lemma owedk_due k o : owedk k o = count_sop o (k_sqq k) + due3 (k_inflight k) (k_cq k) (k_ovf k) o.
+Proof. unfold owedk, due3. lia. Qed.
+
+Lemma nat_list_ext (a b : list nat) :
+  length a = length b -> (forall i, nth i a 0 = nth i b 0) -> a = b.
+Proof. intros Hl H. apply (nth_ext a b 0 0 Hl). intros; apply H. Qed.
 
 Definition drop_op_inner (s : state) (o : nat) (x : op) : state * list lev :=
   if st_running (o_st x)
@@ -532,7 +616,7 @@ Proof.
                         (forall o', count_sop o' q = count_sop o' (k_sqq (s_k s))) /\
                         replay (s_d s) (mon_of s) l = Some (mon_of s) /\
                         sq_add s (SCancel o) =
-                        (set_k s {| k_sqq := q; k_inflight := k_inflight (s_k s); k_cq := k_cq (s_k s); k_ovf := k_ovf (s_k s) |},
+                        (set_k s {| k_sqq := q; k_inflight := k_inflight (s_k s); k_first := k_first (s_k s); k_cq := k_cq (s_k s); k_ovf := k_ovf (s_k s) |},
                          (length (k_sqq (s_k s)) <? d_sqn (s_d s)), l)) as (q & l & Q1 & Q2 & Q3 & Q4).
     { unfold sq_add. destruct (length (k_sqq (s_k s)) <? d_sqn (s_d s)).
       - exists (k_sqq (s_k s) ++ [SCancel o]), [LUse MSq; LUse MSqes; LUse MSq]. repeat split.
@@ -543,25 +627,27 @@ Proof.
         + cbn [replay replay1 mapped]. unfold mon_of at 1. cbn [m_sq]. rewrite Pos. reflexivity.
         + destruct s as [d r rc cl fds ops pools bufs k]; destruct k; reflexivity. }
     rewrite Q4. cbn [fst snd]. cbn [s_ops set_k].
-    set (k1 := {| k_sqq := q; k_inflight := k_inflight (s_k s); k_cq := k_cq (s_k s); k_ovf := k_ovf (s_k s) |}).
+    set (k1 := {| k_sqq := q; k_inflight := k_inflight (s_k s); k_first := k_first (s_k s); k_cq := k_cq (s_k s); k_ovf := k_ovf (s_k s) |}).
     set (s1 := set_ops (set_k s k1) (upd o g (s_ops s))).
     assert (forall o', get_op s1 o' = if o' =? o then g (get_op s o) else get_op s o') as G.
     { intros o'. unfold get_op. subst s1. cbn [s_ops set_ops]. apply nth_upd_op, Ho. }
     split; [reflexivity|]. split; [|split; [|split]].
-    + destruct R as [Rp Rb Ro Rop Rc Rr]. constructor.
+    + destruct R as [Rp Rb Ro Rop Rc Rr Rm]. constructor.
       * exact Rp.
       * intros o' h F' O'. rewrite G in F', O'. destruct (o' =? o); [discriminate F'|]. exact (Rb o' h F' O').
       * intros o'. rewrite G. transitivity (owedk (s_k s) o').
         { subst s1 k1. cbn [s_k set_ops set_k]. unfold owedk. cbn [k_sqq k_inflight k_cq k_ovf]. rewrite Q2. reflexivity. }
         rewrite (Ro o'). destruct (Nat.eqb_spec o' o) as [->|Hne]; [|reflexivity].
         unfold expect. rewrite St. cbn. rewrite Bx. reflexivity.
-      * intros o'. rewrite G. destruct (o' =? o); [|apply Rop]. split; cbn; [discriminate|reflexivity].
+      * intros o'. rewrite G. destruct (o' =? o); [|apply Rop]. split; cbn; [discriminate|intros _; split; [discriminate|reflexivity]].
       * intros h. subst s1 k1. cbn [s_k s_fds set_ops set_k k_sqq]. rewrite Q1. apply Rc.
       * intros h. subst s1 k1. cbn [s_k s_fds set_ops set_k k_sqq]. rewrite Q1. apply Rr.
-    + rewrite Q3. f_equal. unfold mon_of. subst s1 k1. cbn [s_rc s_ring s_ops s_pools s_fds s_k set_ops set_k k_sqq].
+      * exact Rm.
+    + rewrite Q3. f_equal. unfold mon_of. subst s1 k1. cbn [s_rc s_ring s_ops s_pools s_fds s_k set_ops set_k k_sqq k_inflight k_cq k_ovf].
       f_equal.
       * symmetry. apply map_upd_id. reflexivity.
       * symmetry. apply desc_of_ext, Q1.
+      * rewrite upd_length. reflexivity.
     + reflexivity.
     + unfold holders. subst s1 k1. cbn [s_ring s_clones s_fds s_ops s_pools set_ops set_k].
       pose proof (Hcount g ltac:(reflexivity) ltac:(reflexivity)). lia.
@@ -571,20 +657,28 @@ Proof.
     assert (forall o', get_op s1 o' = if o' =? o then g (get_op s o) else get_op s o') as G.
     { intros o'. unfold get_op. subst s1. cbn [s_ops set_ops]. apply nth_upd_op, Ho. }
     split; [reflexivity|]. split; [|split; [|split]].
-    + destruct R as [Rp Rb Ro Rop Rc Rr]. constructor.
+    + destruct R as [Rp Rb Ro Rop Rc Rr Rm]. constructor.
       * exact Rp.
       * intros o' h F' O'. rewrite G in F', O'. destruct (o' =? o); [discriminate F'|]. exact (Rb o' h F' O').
       * intros o'. rewrite G. change (s_k s1) with (s_k s). rewrite (Ro o').
         destruct (Nat.eqb_spec o' o) as [->|Hne]; [|reflexivity].
         unfold expect. subst g. cbn. destruct (o_st (get_op s o)) eqn:E; try reflexivity; try discriminate Run; congruence.
-      * intros o'. rewrite G. destruct (o' =? o); [|apply Rop]. split; cbn; [discriminate|discriminate].
+      * intros o'. rewrite G. destruct (o' =? o); [|apply Rop]. split; cbn; [discriminate|intros _; split; [|discriminate]].
+        destruct (o_st (get_op s o)); try discriminate; discriminate Run.
       * exact Rc.
       * exact Rr.
+      * exact Rm.
     + assert (nth o (m_box (mon_of s)) false = true) as D.
       { unfold mon_of. cbn [m_box]. rewrite nth_box. exact Bx. }
-      cbn [replay replay1]. rewrite D.
-      f_equal. unfold mon_of. subst s1. cbn [s_rc s_ring s_ops s_pools s_fds s_k set_ops m_sq m_sqes m_cq m_fd m_box m_reg m_pring m_pbufs m_desc].
-      f_equal. symmetry. apply map_upd. reflexivity.
+      assert (nth o (m_due (mon_of s)) 0 = 0) as D0.
+      { unfold mon_of. cbn [m_due]. rewrite nth_seq_map. destruct (o <? length (s_ops s)); [|reflexivity].
+        pose proof (wf_owed _ R o) as E. rewrite owedk_due in E.
+        assert (expect (get_op s o) = 0) as E0.
+        { unfold expect. destruct (o_st (get_op s o)); try reflexivity; [discriminate Run|congruence]. }
+        lia. }
+      cbn [replay replay1]. rewrite D, D0. cbn [Nat.eqb andb].
+      f_equal. unfold mon_of, set_box. subst s1. cbn [s_rc s_ring s_ops s_pools s_fds s_k set_ops m_sq m_sqes m_cq m_fd m_box m_reg m_pring m_pbufs m_desc m_due].
+      f_equal; [symmetry; apply map_upd; reflexivity|rewrite upd_length; reflexivity].
     + reflexivity.
     + unfold holders. subst s1. cbn [s_ring s_clones s_fds s_ops s_pools set_ops].
       pose proof (Hcount g ltac:(reflexivity) ltac:(reflexivity)). lia.
@@ -610,19 +704,20 @@ Record wf_core (s : state) : Prop := {
   wc_owed : forall o, owedk (s_k s) o = expect (get_op s o);
   wc_op : forall o, op_ok (get_op s o);
   wc_close : forall h, count_close h (k_sqq (s_k s)) + b2n (nth h (s_fds s) false) <= 1;
-  wc_close_range : forall h, 1 <= count_close h (k_sqq (s_k s)) -> h < length (s_fds s)
+  wc_close_range : forall h, 1 <= count_close h (k_sqq (s_k s)) -> h < length (s_fds s);
+  wc_more : covered (k_inflight (s_k s)) (pend (s_k s))
 }.
 
 Lemma wf_rest_split s : wf_rest s <-> (forall p, p_rc (get_pool s p) = pool_refs s p) /\ wf_core s.
 Proof.
   split.
-  - intros [? ? ? ? ? ?]. split; [assumption|constructor; assumption].
-  - intros [? [? ? ? ? ?]]. constructor; assumption.
+  - intros [? ? ? ? ? ? ?]. split; [assumption|constructor; assumption].
+  - intros [? [? ? ? ? ? ?]]. constructor; assumption.
 Qed.
 
 Lemma wf_core_ext s s' : s_ops s' = s_ops s -> s_fds s' = s_fds s -> s_k s' = s_k s -> wf_core s -> wf_core s'.
 Proof.
-  intros E1 E2 E3 [? ? ? ? ?]. constructor; unfold get_op in *; rewrite ?E1, ?E2, ?E3; assumption.
+  intros E1 E2 E3 [? ? ? ? ? ?]. constructor; unfold get_op in *; rewrite ?E1, ?E2, ?E3; assumption.
 Qed.
 
 Lemma step_good_prefix s s' l0 r :
@@ -673,13 +768,13 @@ Lemma replay_pool_drop d m p :
   replay d m [LRegister (RUnregPbuf p); LFree (APoolRing p); LFree (APoolBufs p)]
   = Some {| m_sq := m_sq m; m_sqes := m_sqes m; m_cq := m_cq m; m_fd := m_fd m; m_box := m_box m;
             m_reg := clr p (m_reg m); m_pring := clr p (m_pring m); m_pbufs := clr p (m_pbufs m);
-            m_desc := m_desc m |}.
+            m_desc := m_desc m; m_due := m_due m |}.
 Proof.
   intros A B C D. cbn [replay]. unfold replay1 at 1. rewrite A, B. cbn [andb].
-  unfold replay1 at 1. cbn [m_pring m_reg m_sq m_sqes m_cq m_fd m_box m_pbufs m_desc].
+  unfold replay1 at 1, set_reg. cbn [m_pring m_reg m_sq m_sqes m_cq m_fd m_box m_pbufs m_desc m_due].
   rewrite C, nth_clr, Nat.eqb_refl. cbn [negb andb].
-  unfold replay1 at 1. cbn [m_pring m_reg m_sq m_sqes m_cq m_fd m_box m_pbufs m_desc].
-  rewrite D, nth_clr, Nat.eqb_refl. cbn [negb andb]. reflexivity.
+  unfold replay1 at 1, set_pring. cbn [m_pring m_reg m_sq m_sqes m_cq m_fd m_box m_pbufs m_desc m_due].
+  rewrite D, nth_clr, Nat.eqb_refl. cbn [negb andb]. rewrite A. reflexivity.
 Qed.
 
 Lemma dec_pool_good s p :
@@ -807,34 +902,126 @@ Proof.
       rewrite (Nat.eqb_sym p' p). lia.
 Qed.
 
-(** ** The kernel finishes a request *)
+(** ** The kernel takes the next step of a request *)
+Definition kdue (k : kern) (o : nat) : nat := due3 (k_inflight k) (k_cq k) (k_ovf k) o.
+
+Lemma post_kdue cqn k c o : kdue (post cqn k c) o = kdue k o + b2n (is_cop o c).
+Proof. unfold kdue, due3. rewrite post_inflight. pose proof (post_cop cqn k c o). lia. Qed.
+
+Lemma flush_kdue cqn k o : kdue (flush_overflow cqn k) o = kdue k o.
+Proof.
+  unfold kdue, due3, flush_overflow, count_cop. cbn [k_inflight k_cq k_ovf]. rewrite count_if_app.
+  pose proof (count_if_firstn_skipn (is_cop o) (cqn - length (k_cq k)) (k_ovf k)). lia.
+Qed.
+
+Lemma owedk_kdue k o : owedk k o = count_sop o (k_sqq k) + kdue k o.
+Proof. apply owedk_due. Qed.
+
+(** The monitor does not see a change of the kernel that keeps the queued submissions and what
+    is due. *)
+Lemma mon_of_k s k' :
+  k_sqq k' = k_sqq (s_k s) -> (forall o, kdue k' o = kdue (s_k s) o) -> mon_of (set_k s k') = mon_of s.
+Proof.
+  intros Q D. unfold mon_of. cbn [s_rc s_ring s_ops s_pools s_fds s_k set_k]. rewrite Q. f_equal.
+  apply map_ext. exact D.
+Qed.
+
+Lemma covered_snoc infl l c :
+  covered infl l -> match c with CMore o => 1 <= count_in o infl | _ => True end -> covered infl (l ++ [c]).
+Proof.
+  induction l as [|x l IH]; intros H Hc; cbn [app covered].
+  - split; [|exact I]. destruct c; auto.
+  - destruct H as [Hx Hl]. split; [|apply IH; assumption].
+    destruct x; auto. unfold count_cop in *. rewrite count_if_app. lia.
+Qed.
+
+Lemma covered_final infl l o :
+  mem_nat o infl = true -> covered infl l -> covered (remove_nat o infl) (l ++ [COp o]).
+Proof.
+  intros M. induction l as [|x l IH]; intros H; cbn [app covered].
+  - split; exact I.
+  - destruct H as [Hx Hl]. split; [|apply IH; exact Hl].
+    destruct x as [o'|o'|]; auto. unfold count_cop in *. rewrite count_if_app, count_if_single. cbn [is_cop].
+    destruct (Nat.eqb_spec o o') as [<-|Hne]; cbn [b2n].
+    + pose proof (count_remove_same o _ M). lia.
+    + rewrite (count_remove_other o o') by auto. lia.
+Qed.
+
+Lemma covered_mono infl infl' l :
+  (forall o, count_in o infl <= count_in o infl') -> covered infl l -> covered infl' l.
+Proof.
+  intros Hm. induction l as [|x l IH]; intros H; cbn [covered] in *; [exact I|].
+  destruct H as [Hx Hl]. split; [|apply IH; exact Hl]. destruct x; auto. specialize (Hm o). lia.
+Qed.
+
+Lemma covered_suffix infl a b : covered infl (a ++ b) -> covered infl b.
+Proof. induction a as [|x a IH]; cbn [app covered]; [auto|]. intros [_ H]. apply IH, H. Qed.
+
+Lemma mem_nat_pos o l : mem_nat o l = true -> 1 <= count_in o l.
+Proof. rewrite mem_nat_count. intros H. apply Nat.ltb_lt in H. exact H. Qed.
+
+(** Cancelling keeps what is due and the coverage of the posted results. *)
+Lemma cancel_req_kdue d k o o' : mem_nat o (k_inflight k) = true -> kdue (cancel_req d k o) o' = kdue k o'.
+Proof.
+  intros M. pose proof (cancel_req_owed d k o o' M) as E. rewrite !owedk_kdue, cancel_req_sqq in E. lia.
+Qed.
+
+Lemma cancel_req_inflight d k o : k_inflight (cancel_req d k o) = remove_nat o (k_inflight k).
+Proof. unfold cancel_req. destruct (mem_nat o (k_first k)); rewrite ?post_inflight; reflexivity. Qed.
+
+Lemma cancel_req_covered d k o :
+  mem_nat o (k_inflight k) = true -> covered (k_inflight k) (pend k) ->
+  covered (k_inflight (cancel_req d k o)) (pend (cancel_req d k o)).
+Proof.
+  intros M C. rewrite cancel_req_inflight. unfold cancel_req.
+  destruct (mem_nat o (k_first k)); rewrite !post_pend.
+  - apply covered_final; [exact M|]. apply covered_snoc; [exact C|]. apply mem_nat_pos, M.
+  - apply covered_final; assumption.
+Qed.
+
 Lemma kcomplete_good s o : wf s -> step_good s (kcomplete s o).
 Proof.
   intros W. pose proof W as [Hrc R]. unfold kcomplete. destruct (mem_nat o (k_inflight (s_k s))) eqn:M.
   2:{ apply step_good_refl, W. }
-  set (k0 := {| k_sqq := k_sqq (s_k s); k_inflight := remove_nat o (k_inflight (s_k s)); k_cq := k_cq (s_k s); k_ovf := k_ovf (s_k s) |}).
-  set (k1 := post (d_cqn (s_d s)) k0 (COp o)).
-  assert (k_sqq k1 = k_sqq (s_k s)) as Q by (subst k1; rewrite post_sqq; reflexivity).
-  split; [|split; [|reflexivity]].
-  - split; [exact Hrc|]. destruct R as [Rp Rb Ro Rop Rc Rr]. constructor; cbn [fst]; try assumption.
-    + intros o'. cbn [s_k set_k]. change (get_op (set_k s k1) o') with (get_op s o'). rewrite <- (Ro o').
-      subst k1. rewrite post_owed. unfold owedk. subst k0. cbn [k_sqq k_inflight k_cq k_ovf is_cop].
+  destruct (mem_nat o (k_first (s_k s))) eqn:F.
+  - (* the result of a two-step request: F_MORE, the request stays in flight *)
+    set (k0 := {| k_sqq := k_sqq (s_k s); k_inflight := k_inflight (s_k s); k_first := remove_nat o (k_first (s_k s));
+                  k_cq := k_cq (s_k s); k_ovf := k_ovf (s_k s) |}).
+    set (k1 := post (d_cqn (s_d s)) k0 (CMore o)).
+    assert (k_sqq k1 = k_sqq (s_k s)) as Q by (subst k1; rewrite post_sqq; reflexivity).
+    assert (forall o', kdue k1 o' = kdue (s_k s) o') as D.
+    { intros o'. subst k1. rewrite post_kdue. cbn [is_cop b2n]. unfold kdue. subst k0. cbn [k_inflight k_cq k_ovf]. lia. }
+    split; [|split; [|reflexivity]].
+    + split; [exact Hrc|]. destruct R as [Rp Rb Ro Rop Rc Rr Rm]. constructor; cbn [fst]; try assumption.
+      * intros o'. cbn [s_k set_k]. change (get_op (set_k s k1) o') with (get_op s o'). rewrite <- (Ro o').
+        rewrite !owedk_kdue, Q, D. reflexivity.
+      * intros h. cbn [s_k set_k s_fds]. rewrite Q. apply Rc.
+      * intros h. cbn [s_k set_k s_fds]. rewrite Q. apply Rr.
+      * cbn [s_k set_k]. subst k1. rewrite post_inflight, post_pend.
+        apply covered_snoc; [exact Rm|]. apply mem_nat_pos, M.
+    + cbn [fst snd replay]. f_equal. symmetry. apply mon_of_k; assumption.
+  - (* the final completion *)
+    set (k0 := {| k_sqq := k_sqq (s_k s); k_inflight := remove_nat o (k_inflight (s_k s)); k_first := k_first (s_k s);
+                  k_cq := k_cq (s_k s); k_ovf := k_ovf (s_k s) |}).
+    set (k1 := post (d_cqn (s_d s)) k0 (COp o)).
+    assert (k_sqq k1 = k_sqq (s_k s)) as Q by (subst k1; rewrite post_sqq; reflexivity).
+    assert (forall o', kdue k1 o' = kdue (s_k s) o') as D.
+    { intros o'. subst k1. rewrite post_kdue. unfold kdue, due3. subst k0. cbn [k_inflight k_cq k_ovf is_cop].
       destruct (Nat.eqb_spec o o') as [<-|Hne]; cbn [b2n].
-      * pose proof (count_remove_same o _ M). lia.
-      * rewrite (count_remove_other o o') by auto. lia.
-    + intros h. cbn [s_k set_k s_fds]. rewrite Q. apply Rc.
-    + intros h. cbn [s_k set_k s_fds]. rewrite Q. apply Rr.
-  - cbn [fst snd replay]. f_equal. unfold mon_of. cbn [s_rc s_ring s_ops s_pools s_fds s_k set_k]. rewrite Q. reflexivity.
+      - pose proof (count_remove_same o _ M). lia.
+      - rewrite (count_remove_other o o') by auto. lia. }
+    split; [|split; [|reflexivity]].
+    + split; [exact Hrc|]. destruct R as [Rp Rb Ro Rop Rc Rr Rm]. constructor; cbn [fst]; try assumption.
+      * intros o'. cbn [s_k set_k]. change (get_op (set_k s k1) o') with (get_op s o'). rewrite <- (Ro o').
+        rewrite !owedk_kdue, Q, D. reflexivity.
+      * intros h. cbn [s_k set_k s_fds]. rewrite Q. apply Rc.
+      * intros h. cbn [s_k set_k s_fds]. rewrite Q. apply Rr.
+      * cbn [s_k set_k]. subst k1. rewrite post_inflight, post_pend. subst k0. cbn [k_inflight].
+        apply (covered_final _ _ _ M). exact Rm.
+    + cbn [fst snd replay]. f_equal. symmetry. apply mon_of_k; assumption.
 Qed.
 
 (** ** Pieces of [Drop for Ring] *)
-Definition set_desc (m : mon) (l : list bool) : mon :=
-  {| m_sq := m_sq m; m_sqes := m_sqes m; m_cq := m_cq m; m_fd := m_fd m; m_box := m_box m;
-     m_reg := m_reg m; m_pring := m_pring m; m_pbufs := m_pbufs m; m_desc := l |}.
-Definition set_box (m : mon) (l : list bool) : mon :=
-  {| m_sq := m_sq m; m_sqes := m_sqes m; m_cq := m_cq m; m_fd := m_fd m; m_box := l;
-     m_reg := m_reg m; m_pring := m_pring m; m_pbufs := m_pbufs m; m_desc := m_desc m |}.
-
 Definition consume_desc (q : list sqe) (dsc : list bool) : list bool :=
   fold_left (fun dsc e => match e with SClose h => clr h dsc | _ => dsc end) q dsc.
 
@@ -856,19 +1043,43 @@ Qed.
 
 Lemma set_desc_same m : set_desc m (m_desc m) = m.
 Proof. destruct m; reflexivity. Qed.
+Lemma set_due_same m : set_due m (m_due m) = m.
+Proof. destruct m; reflexivity. Qed.
+
+Definition consume_due (q : list sqe) (due : list nat) : list nat :=
+  fold_left (fun due e => match e with SOp o => upd o S due | _ => due end) q due.
+
+Lemma consume_due_length q due : length (consume_due q due) = length due.
+Proof.
+  revert due; induction q as [|e q IH]; intros due; cbn; auto.
+  rewrite IH. destruct e; auto. apply upd_length.
+Qed.
+
+Lemma consume_due_nth q due o :
+  nth o (consume_due q due) 0 = nth o due 0 + (if o <? length due then count_sop o q else 0).
+Proof.
+  revert due; induction q as [|e q IH]; intros due; cbn [consume_due fold_left].
+  - change (count_sop o []) with 0. destruct (o <? length due); lia.
+  - fold (consume_due q). rewrite IH. unfold count_sop. rewrite count_if_cons. fold (count_sop o q).
+    destruct e as [h|o'|o']; cbn [is_sop b2n]; try reflexivity.
+    rewrite upd_length, nth_upd_gen. rewrite (Nat.eqb_sym o' o).
+    destruct (Nat.eqb_spec o o') as [->|Hne]; cbn [andb b2n].
+    + destruct (o' <? length due); lia.
+    + destruct (o <? length due); lia.
+Qed.
 
 Lemma replay_consumed d q : forall m,
   (forall h, count_close h q <= 1) ->
   (forall h, 1 <= count_close h q -> nth h (m_desc m) false = true) ->
-  replay d m (map LConsumed q) = Some (set_desc m (consume_desc q (m_desc m))).
+  replay d m (map LConsumed q) = Some (set_due (set_desc m (consume_desc q (m_desc m))) (consume_due q (m_due m))).
 Proof.
   induction q as [|e q IH]; intros m H1 H2.
-  - cbn. rewrite set_desc_same. reflexivity.
+  - cbn. rewrite set_desc_same, set_due_same. reflexivity.
   - assert (forall h, count_close h q <= 1) as H1'.
     { intros h. specialize (H1 h). unfold count_close in *. rewrite count_if_cons in H1. lia. }
     cbn [map replay]. destruct e as [h|o|o]; cbn [replay1].
     + rewrite H2 by (unfold count_close; rewrite count_if_cons; cbn [is_close]; rewrite Nat.eqb_refl; cbn; lia).
-      fold (set_desc m (clr h (m_desc m))). rewrite IH.
+      rewrite IH.
       * reflexivity.
       * exact H1'.
       * intros h' Hc. cbn [set_desc m_desc]. rewrite nth_clr.
@@ -876,7 +1087,8 @@ Proof.
         -- specialize (H1 h). unfold count_close in *. rewrite count_if_cons in H1. cbn [is_close] in H1.
            rewrite Nat.eqb_refl in H1. cbn in H1. lia.
         -- apply H2. unfold count_close in *. rewrite count_if_cons. lia.
-    + apply IH; [exact H1'|]. intros h Hc. apply H2. unfold count_close in *. rewrite count_if_cons. lia.
+    + rewrite IH; [reflexivity|exact H1'|]. intros h Hc. cbn [set_due m_desc]. apply H2.
+      unfold count_close in *. rewrite count_if_cons. lia.
     + apply IH; [exact H1'|]. intros h Hc. apply H2. unfold count_close in *. rewrite count_if_cons. lia.
 Qed.
 
@@ -919,31 +1131,92 @@ Proof.
   rewrite replay_app, R1. rewrite <- (fr_d _ _ F1). exact R2.
 Qed.
 
+Lemma execute_covered d k q :
+  covered (k_inflight k) (pend k) -> covered (k_inflight (execute d k q)) (pend (execute d k q)).
+Proof.
+  intros C. destruct q as [h|o|o]; cbn [execute].
+  - exact C.
+  - unfold pend. cbn [k_inflight k_cq k_ovf]. apply (covered_mono (k_inflight k)); [|exact C].
+    intros o'. unfold count_in. rewrite count_if_app. lia.
+  - destruct (cancelable d k o) eqn:M.
+    + apply cancel_req_covered; [apply (cancelable_mem d), M|exact C].
+    + rewrite post_inflight, post_pend. apply covered_snoc; [exact C|exact I].
+Qed.
+
+Lemma fold_execute_covered d q : forall k,
+  covered (k_inflight k) (pend k) ->
+  covered (k_inflight (fold_left (execute d) q k)) (pend (fold_left (execute d) q k)).
+Proof. induction q as [|x q IH]; intros k C; cbn [fold_left]; [exact C|]. apply IH, execute_covered, C. Qed.
+
+Lemma consume_all_covered d k :
+  covered (k_inflight k) (pend k) -> covered (k_inflight (consume_all d k)) (pend (consume_all d k)).
+Proof. intros C. unfold consume_all. apply fold_execute_covered. exact C. Qed.
+
+Lemma flush_covered cqn k :
+  covered (k_inflight k) (pend k) -> covered (k_inflight (flush_overflow cqn k)) (pend (flush_overflow cqn k)).
+Proof. intros C. rewrite flush_pend. exact C. Qed.
+
+Lemma sc_step_covered d k o :
+  covered (k_inflight k) (pend k) -> covered (k_inflight (sc_step d k o)) (pend (sc_step d k o)).
+Proof.
+  intros C. unfold sc_step. destruct (cancelable d k o) eqn:M; [|exact C].
+  apply cancel_req_covered; [apply (cancelable_mem d), M|exact C].
+Qed.
+
+Lemma sync_cancel_covered d k :
+  covered (k_inflight k) (pend k) -> covered (k_inflight (sync_cancel d k)) (pend (sync_cancel d k)).
+Proof.
+  rewrite sync_cancel_fold. generalize (k_inflight k) at 2 3. intros l. revert k.
+  induction l as [|x l IH]; intros k C; cbn [fold_left]; [exact C|]. apply IH, sc_step_covered, C.
+Qed.
+
+Lemma sync_cancel_kdue d k o : kdue (sync_cancel d k) o = kdue k o.
+Proof. pose proof (sync_cancel_owed d k o) as E. rewrite !owedk_kdue, sync_cancel_sqq in E. lia. Qed.
+
+(** A submission for operation [o] is queued only if [o] is an operation. *)
+Lemma sop_in_range s o : wf_core s -> 1 <= count_sop o (k_sqq (s_k s)) -> o < length (s_ops s).
+Proof.
+  intros C H. pose proof (wc_owed _ C o) as E. rewrite owedk_kdue in E.
+  destruct (Nat.lt_ge_cases o (length (s_ops s))); auto.
+  unfold get_op in E. rewrite nth_overflow in E by lia. cbn in E. lia.
+Qed.
+
 Lemma enter_all_good s g :
   wf_core s -> (0 <? s_rc s) = true ->
   seg_good s (fst (enter_all s g)) (snd (enter_all s g)) /\ k_sqq (s_k (fst (enter_all s g))) = [].
 Proof.
-  intros C Pos. unfold enter_all. cbn [fst snd].
-  set (cqn := d_cqn (s_d s)). set (k1 := flush_overflow cqn (consume_all cqn (s_k s))).
+  intros C Pos. pose proof (sop_in_range s) as Range. specialize (fun o => Range o C).
+  unfold enter_all. cbn [fst snd].
+  set (cqn := d_cqn (s_d s)). set (k1 := flush_overflow cqn (consume_all (s_d s) (s_k s))).
   assert (k_sqq k1 = []) as Q by (subst k1; rewrite flush_sqq; apply consume_all_sqq).
+  assert (forall o, kdue k1 o = count_sop o (k_sqq (s_k s)) + kdue (s_k s) o) as D.
+  { intros o. rewrite <- owedk_kdue. pose proof (owedk_kdue k1 o) as E. rewrite Q in E. change (count_sop o []) with 0 in E.
+    cbn [Nat.add] in E. rewrite <- E. subst k1. rewrite flush_owed, consume_all_owed. reflexivity. }
   split; [|cbn [s_k set_k]; exact Q].
-  destruct C as [Cb Co Cop Cc Cr]. split; [|split].
+  destruct C as [Cb Co Cop Cc Cr Cm]. split; [|split].
   - constructor; try assumption.
     + intros o. cbn [s_k set_k]. change (get_op (set_k s k1) o) with (get_op s o). rewrite <- (Co o).
       subst k1. rewrite flush_owed, consume_all_owed. reflexivity.
     + intros h. cbn [s_k set_k s_fds]. rewrite Q. cbn. destruct (nth h (s_fds s) false); cbn; lia.
     + intros h. cbn [s_k set_k]. rewrite Q. cbn. lia.
+    + cbn [s_k set_k]. subst k1. apply flush_covered, consume_all_covered, Cm.
   - constructor; reflexivity.
   - change ([LUse MSq; LEnter (length (k_sqq (s_k s))) g] ++ map LConsumed (k_sqq (s_k s)))
       with (LUse MSq :: LEnter (length (k_sqq (s_k s))) g :: map LConsumed (k_sqq (s_k s))).
     rewrite replay_use by (apply mon_sq, Pos). rewrite replay_enter by (apply mon_fd, Pos).
     rewrite replay_consumed.
-    + f_equal. unfold mon_of, set_desc. cbn [s_rc s_ring s_ops s_pools s_fds s_k set_k m_sq m_sqes m_cq m_fd m_box m_reg m_pring m_pbufs m_desc].
-      f_equal. rewrite Q. apply bool_list_ext; [rewrite consume_desc_length, !desc_of_length; reflexivity|].
-      intros h. rewrite consume_desc_nth, !desc_of_nth; [|cbn; lia|exact (Cr h)].
-      change (count_close h []) with 0. cbn [Nat.ltb Nat.leb orb]. rewrite orb_false_r.
-      specialize (Cc h). destruct (count_close h (k_sqq (s_k s))) as [|n]; cbn; [rewrite orb_false_r, andb_true_r; reflexivity|].
-      destruct (nth h (s_fds s) false); cbn in *; [lia|reflexivity].
+    + f_equal. unfold mon_of, set_desc, set_due. cbn [s_rc s_ring s_ops s_pools s_fds s_k set_k m_sq m_sqes m_cq m_fd m_box m_reg m_pring m_pbufs m_desc m_due].
+      f_equal.
+      * rewrite Q. apply bool_list_ext; [rewrite consume_desc_length, !desc_of_length; reflexivity|].
+        intros h. rewrite consume_desc_nth, !desc_of_nth; [|cbn; lia|exact (Cr h)].
+        change (count_close h []) with 0. cbn [Nat.ltb Nat.leb orb]. rewrite orb_false_r.
+        specialize (Cc h). destruct (count_close h (k_sqq (s_k s))) as [|n]; cbn; [rewrite orb_false_r, andb_true_r; reflexivity|].
+        destruct (nth h (s_fds s) false); cbn in *; [lia|reflexivity].
+      * apply nat_list_ext; [rewrite consume_due_length, !map_length; reflexivity|].
+        intros o. rewrite consume_due_nth, map_length, seq_length, !nth_seq_map.
+        fold (kdue (s_k s) o). fold (kdue k1 o). rewrite D.
+        destruct (Nat.ltb_spec o (length (s_ops s))) as [Hlt|Hge]; [lia|].
+        destruct (count_sop o (k_sqq (s_k s))) eqn:E0; [reflexivity|]. specialize (Range o). lia.
     + intros h. specialize (Cc h). lia.
     + intros h Hc. unfold mon_of. cbn [m_desc]. rewrite desc_of_nth by exact (Cr h).
       destruct (count_close h (k_sqq (s_k s))); [lia|]. cbn. apply orb_true_r.
@@ -951,16 +1224,17 @@ Qed.
 
 Lemma sync_cancel_good s :
   wf_core s -> (0 <? s_rc s) = true ->
-  seg_good s (set_k s (sync_cancel (d_cqn (s_d s)) (s_k s))) [LRegister RSyncCancel].
+  seg_good s (set_k s (sync_cancel (s_d s) (s_k s))) [LRegister RSyncCancel].
 Proof.
-  intros [Cb Co Cop Cc Cr] Pos. split; [|split].
+  intros [Cb Co Cop Cc Cr Cm] Pos. split; [|split].
   - constructor; try assumption.
     + intros o. cbn [s_k set_k]. rewrite sync_cancel_owed. apply Co.
     + intros h. cbn [s_k set_k s_fds]. rewrite sync_cancel_sqq. apply Cc.
     + intros h. cbn [s_k set_k s_fds]. rewrite sync_cancel_sqq. apply Cr.
+    + cbn [s_k set_k]. apply sync_cancel_covered, Cm.
   - constructor; reflexivity.
   - cbn [replay replay1]. unfold mon_of at 1. cbn [m_fd]. rewrite Pos. f_equal.
-    unfold mon_of. cbn [s_rc s_ring s_ops s_pools s_fds s_k set_k]. rewrite sync_cancel_sqq. reflexivity.
+    symmetry. apply mon_of_k; [apply sync_cancel_sqq|intros o; apply sync_cancel_kdue].
 Qed.
 
 (** Completion dispatch: every processed final completion is one the operation waited for. *)
@@ -972,80 +1246,149 @@ Proof.
   intros H. destruct (Nat.lt_ge_cases o (length ops)); auto. rewrite nth_overflow in H by lia. cbn in H. congruence.
 Qed.
 
-Lemma process_all_good cs : forall ops (rest : nat -> nat),
+Definition process_due (cs : list cqe) (due : list nat) : list nat :=
+  fold_left (fun due c => match c with COp o => upd o pred due | _ => due end) cs due.
+
+Lemma process_due_length cs due : length (process_due cs due) = length due.
+Proof.
+  revert due; induction cs as [|c cs IH]; intros due; cbn; auto.
+  rewrite IH. destruct c; auto. apply upd_length.
+Qed.
+
+Lemma process_due_nth cs due o : nth o (process_due cs due) 0 = nth o due 0 - count_cop o cs.
+Proof.
+  revert due; induction cs as [|c cs IH]; intros due; cbn [process_due fold_left].
+  - change (count_cop o []) with 0. lia.
+  - fold (process_due cs). rewrite IH. unfold count_cop. rewrite count_if_cons. fold (count_cop o cs).
+    destruct c as [o'|o'|]; cbn [is_cop b2n]; try reflexivity.
+    rewrite nth_upd_gen. rewrite (Nat.eqb_sym o' o).
+    destruct (Nat.eqb_spec o o') as [->|Hne]; cbn [andb b2n]; [|lia].
+    destruct (Nat.ltb_spec o' (length due)); [lia|]. rewrite nth_overflow by lia. lia.
+Qed.
+
+Lemma nth_upd_pred_le o o' (due : list nat) n :
+  nth o' due 0 <= b2n (o =? o') + n -> nth o' (upd o pred due) 0 <= n.
+Proof.
+  rewrite nth_upd_gen. rewrite (Nat.eqb_sym o' o).
+  destruct (Nat.eqb_spec o o') as [->|Hne]; cbn [andb b2n]; [|lia].
+  destruct (Nat.ltb_spec o' (length due)); [lia|]. rewrite nth_overflow by lia. lia.
+Qed.
+
+(** Processing a batch [cs] of the posted completions; [tl] is what stays posted behind it, [infl]
+    what is in flight, [rest o] everything that is still due for [o] apart from the batch. *)
+Lemma process_all_good cs : forall ops (rest : nat -> nat) infl tl,
   (forall o, count_cop o cs + rest o = expect (nth o ops dead_op)) ->
   (forall o, op_ok (nth o ops dead_op)) ->
+  covered infl (cs ++ tl) ->
+  (forall o, count_cop o tl + count_in o infl <= rest o) ->
   let r := process_all ops cs in
   (forall o, rest o = expect (nth o (fst r) dead_op)) /\
   (forall o, op_ok (nth o (fst r) dead_op)) /\
   (forall o, o_fut (nth o (fst r) dead_op) = o_fut (nth o ops dead_op) /\ o_on (nth o (fst r) dead_op) = o_on (nth o ops dead_op)) /\
   count_if hp (fst r) = count_if hp ops /\
-  (forall d m, m_box m = map o_box ops -> replay d m (snd r) = Some (set_box m (map o_box (fst r)))).
+  length (fst r) = length ops /\
+  (forall d m, m_box m = map o_box ops ->
+     (forall o, nth o (m_due m) 0 <= count_cop o cs + (count_cop o tl + count_in o infl)) ->
+     replay d m (snd r) = Some (set_due (set_box m (map o_box (fst r))) (process_due cs (m_due m)))).
 Proof.
-  induction cs as [|c cs IH]; intros ops rest H OK.
-  - cbn. split; [|split; [|split; [|split]]]; auto.
-    intros d m E. rewrite <- E, set_box_same. reflexivity.
-  - cbn [process_all]. destruct c as [o|].
-    2:{ cbn [process_one]. specialize (IH ops rest).
-        rewrite (surjective_pairing (process_all ops cs)). cbn [fst snd app]. apply IH; [|exact OK].
+  induction cs as [|c cs IH]; intros ops rest infl tl H OK Cov Hrest.
+  - cbn. split; [|split; [|split; [|split; [|split]]]]; auto.
+    intros d m E _. rewrite <- E, set_box_same, set_due_same. reflexivity.
+  - cbn [process_all]. destruct c as [o|o|].
+    3:{ cbn [process_one]. specialize (IH ops rest infl tl).
+        rewrite (surjective_pairing (process_all ops cs)). cbn [fst snd app]. apply IH; [|exact OK|exact (proj2 Cov)|exact Hrest].
         intros o. specialize (H o). unfold count_cop in *. rewrite count_if_cons in H. cbn in H. lia. }
+    2:{ (* a result with F_MORE: the state is looked at, nothing changes *)
+        cbn [process_one]. specialize (IH ops rest infl tl).
+        rewrite (surjective_pairing (process_all ops cs)). cbn [fst snd].
+        assert (forall o', count_cop o' cs + rest o' = expect (nth o' ops dead_op)) as H'.
+        { intros o'. specialize (H o'). unfold count_cop in *. rewrite count_if_cons in H. cbn in H. lia. }
+        destruct (IH H' OK (proj2 Cov) Hrest) as (I1 & I2 & I3 & I4 & I5 & I6).
+        split; [exact I1|]. split; [exact I2|]. split; [exact I3|]. split; [exact I4|]. split; [exact I5|].
+        intros d m E B.
+        assert (o_box (nth o ops dead_op) = true) as Bx.
+        { apply op_ok_expect; [apply OK|]. rewrite <- (H' o). destruct Cov as [Cv _]. cbn [app] in Cv.
+          unfold count_cop in *. rewrite count_if_app in Cv. specialize (Hrest o). unfold count_cop in Hrest. lia. }
+        cbn [app replay replay1]. rewrite E, nth_box, Bx. apply I6; [exact E|].
+        intros o'. specialize (B o'). unfold count_cop in *. rewrite count_if_cons in B. cbn [is_cop b2n] in B. lia. }
     pose proof (H o) as Ho. unfold count_cop in Ho. rewrite count_if_cons in Ho. cbn [is_cop] in Ho.
     rewrite Nat.eqb_refl in Ho. cbn [b2n] in Ho.
+    assert (forall o', b2n (o =? o') + count_cop o' cs + rest o' = expect (nth o' ops dead_op)) as H0.
+    { intros o'. specialize (H o'). unfold count_cop in *. rewrite count_if_cons in H. cbn [is_cop] in H. exact H. }
     cbn [process_one]. unfold expect in Ho. destruct (o_st (nth o ops dead_op)) eqn:St; try lia.
     + (* Running -> Done *)
       assert (o < length ops) as Hlt by (apply nth_op_lt; congruence).
+      assert (o_box (nth o ops dead_op) = true) as Bx.
+      { apply op_ok_expect; [apply OK|]. unfold expect. rewrite St. lia. }
       set (f := fun x : op => {| o_on := o_on x; o_fut := o_fut x; o_st := Done; o_box := o_box x |}).
-      specialize (IH (upd o f ops) rest).
+      specialize (IH (upd o f ops) rest infl tl).
       rewrite (surjective_pairing (process_all (upd o f ops) cs)). cbn [fst snd app].
       assert (forall o', nth o' (upd o f ops) dead_op = if o' =? o then f (nth o ops dead_op) else nth o' ops dead_op) as G
         by (intros; apply nth_upd_op, Hlt).
-      destruct IH as (I1 & I2 & I3 & I4 & I5).
+      destruct IH as (I1 & I2 & I3 & I4 & I5 & I6).
       * intros o'. rewrite G. destruct (Nat.eqb_spec o' o) as [->|Hne].
         -- unfold expect. cbn. unfold count_cop. lia.
-        -- specialize (H o'). unfold count_cop in *. rewrite count_if_cons in H. cbn [is_cop] in H.
-           destruct (Nat.eqb_spec o o'); [congruence|]. cbn in H. lia.
+        -- specialize (H0 o'). destruct (Nat.eqb_spec o o'); [congruence|]. cbn in H0. lia.
       * intros o'. rewrite G. destruct (Nat.eqb_spec o' o) as [->|Hne]; [|apply OK].
         destruct (OK o) as [A B]. split; cbn.
         -- intros F. destruct (A F). split; [assumption|discriminate].
-        -- intros F Bx. specialize (B F Bx). congruence.
-      * split; [exact I1|]. split; [exact I2|]. split; [|split].
+        -- intros F. destruct (B F) as [NR _]. congruence.
+      * exact (proj2 Cov).
+      * exact Hrest.
+      * split; [exact I1|]. split; [exact I2|]. split; [|split; [|split]].
         -- intros o0. destruct (I3 o0) as [A B]. rewrite A, B, G.
            destruct (o0 =? o) eqn:E; [apply Nat.eqb_eq in E; subst; split; reflexivity|split; reflexivity].
         -- rewrite I4. pose proof (count_if_upd hp o f ops dead_op Hlt) as E. unfold hp in *. cbn in E.
            change (owns (f (nth o ops dead_op))) with (owns (nth o ops dead_op)) in E. lia.
-        -- intros d m E. apply I5. rewrite E. symmetry. apply map_upd_id. reflexivity.
+        -- rewrite I5. apply upd_length.
+        -- intros d m E B. cbn [app replay replay1]. rewrite E, nth_box, Bx.
+           rewrite (I6 d (set_due m (upd o pred (m_due m)))).
+           ++ reflexivity.
+           ++ cbn [set_due m_box]. rewrite E. symmetry. apply map_upd_id. reflexivity.
+           ++ intros o'. cbn [set_due m_due]. apply nth_upd_pred_le. specialize (B o').
+              unfold count_cop in *. rewrite count_if_cons in B. cbn [is_cop] in B. lia.
     + (* Dropped: free the state *)
       assert (o < length ops) as Hlt by (apply nth_op_lt; congruence).
       assert (o_box (nth o ops dead_op) = true) as Bx by (destruct (o_box (nth o ops dead_op)); cbn in Ho; [reflexivity|lia]).
       rewrite Bx in Ho. cbn in Ho.
       set (f := fun x : op => {| o_on := o_on x; o_fut := o_fut x; o_st := o_st x; o_box := false |}).
-      specialize (IH (upd o f ops) rest).
+      specialize (IH (upd o f ops) rest infl tl).
       rewrite (surjective_pairing (process_all (upd o f ops) cs)). cbn [fst snd].
       assert (forall o', nth o' (upd o f ops) dead_op = if o' =? o then f (nth o ops dead_op) else nth o' ops dead_op) as G
         by (intros; apply nth_upd_op, Hlt).
-      destruct IH as (I1 & I2 & I3 & I4 & I5).
+      destruct IH as (I1 & I2 & I3 & I4 & I5 & I6).
       * intros o'. rewrite G. destruct (Nat.eqb_spec o' o) as [->|Hne].
         -- unfold expect. cbn. rewrite St. cbn. unfold count_cop. lia.
-        -- specialize (H o'). unfold count_cop in *. rewrite count_if_cons in H. cbn [is_cop] in H.
-           destruct (Nat.eqb_spec o o'); [congruence|]. cbn in H. lia.
+        -- specialize (H0 o'). destruct (Nat.eqb_spec o o'); [congruence|]. cbn in H0. lia.
       * intros o'. rewrite G. destruct (Nat.eqb_spec o' o) as [->|Hne]; [|apply OK].
         destruct (OK o) as [A B]. split; cbn.
         -- intros F. destruct (A F). congruence.
-        -- intros _ F. discriminate.
-      * split; [exact I1|]. split; [exact I2|]. split; [|split].
+        -- intros _. split; [congruence|discriminate].
+      * exact (proj2 Cov).
+      * exact Hrest.
+      * split; [exact I1|]. split; [exact I2|]. split; [|split; [|split]].
         -- intros o0. destruct (I3 o0) as [A B]. rewrite A, B, G.
            destruct (o0 =? o) eqn:E; [apply Nat.eqb_eq in E; subst; split; reflexivity|split; reflexivity].
         -- rewrite I4. pose proof (count_if_upd hp o f ops dead_op Hlt) as E. unfold hp in *. cbn in E.
            change (owns (f (nth o ops dead_op))) with (owns (nth o ops dead_op)) in E. lia.
-        -- intros d m E. cbn [app replay replay1]. rewrite E, nth_box, Bx.
-           fold (set_box m (clr o (map o_box ops))). rewrite (I5 d (set_box m (clr o (map o_box ops)))).
+        -- rewrite I5. apply upd_length.
+        -- intros d m E B. cbn [app replay]. unfold replay1 at 1. rewrite E, nth_box, Bx.
+           assert (nth o (upd o pred (m_due m)) 0 = 0) as D0.
+           { assert (nth o (upd o pred (m_due m)) 0 <= 0) as Le; [|lia].
+             apply nth_upd_pred_le. specialize (B o). unfold count_cop in *. rewrite count_if_cons in B.
+             cbn [is_cop] in B. specialize (Hrest o). unfold count_cop in Hrest. lia. }
+           unfold replay1 at 1. cbn [set_due m_box m_due]. rewrite E, nth_box, Bx, D0. cbn [Nat.eqb andb].
+           rewrite (I6 d (set_box (set_due m (upd o pred (m_due m))) (clr o (map o_box ops)))).
            ++ reflexivity.
            ++ cbn [set_box m_box]. symmetry. apply map_upd. reflexivity.
+           ++ intros o'. cbn [set_box set_due m_due]. apply nth_upd_pred_le. specialize (B o').
+              unfold count_cop in *. rewrite count_if_cons in B. cbn [is_cop] in B. lia.
 Qed.
 
 Lemma cq_poll_k s :
   s_k (fst (cq_poll s)) =
-  {| k_sqq := k_sqq (fst (poll_fetch s)); k_inflight := k_inflight (fst (poll_fetch s)); k_cq := [];
+  {| k_sqq := k_sqq (fst (poll_fetch s)); k_inflight := k_inflight (fst (poll_fetch s));
+     k_first := k_first (fst (poll_fetch s)); k_cq := [];
      k_ovf := k_ovf (fst (poll_fetch s)) |}.
 Proof. unfold cq_poll. destruct (poll_fetch s) as [k1 l1]. destruct (process_all _ _). reflexivity. Qed.
 
@@ -1060,24 +1403,30 @@ Lemma cq_poll_good s :
 Proof.
   intros C Pos Ring Q. pose proof (poll_fetch_nil s Q) as PF. unfold cq_poll.
   destruct (poll_fetch s) as [k1 l1] eqn:EP. cbn [fst] in PF.
-  assert (k_sqq k1 = [] /\ (forall o, owedk k1 o = owedk (s_k s) o)) as [Q1 O1].
-  { subst k1. destruct (k_cq (s_k s)); [split; [rewrite flush_sqq; exact Q|intros; apply flush_owed]|split; [exact Q|reflexivity]]. }
+  destruct C as [Cb Co Cop Cc Cr Cm].
+  assert (k_sqq k1 = [] /\ (forall o, owedk k1 o = owedk (s_k s) o) /\ (forall o, kdue k1 o = kdue (s_k s) o) /\
+          covered (k_inflight k1) (pend k1)) as (Q1 & O1 & D1 & Cm1).
+  { subst k1. destruct (k_cq (s_k s)).
+    - split; [rewrite flush_sqq; exact Q|]. split; [intros; apply flush_owed|]. split; [intros; apply flush_kdue|].
+      apply flush_covered, Cm.
+    - split; [exact Q|]. split; [reflexivity|]. split; [reflexivity|exact Cm]. }
   assert (replay (s_d s) (mon_of s) l1 = Some (mon_of s)) as R1.
   { unfold poll_fetch in EP. destruct (k_cq (s_k s)); inversion EP; subst l1.
     - rewrite Q. cbn [map app length].
       rewrite replay_use by (apply mon_cq, Ring). rewrite replay_use by (apply mon_sq, Pos).
       rewrite replay_enter by (apply mon_fd, Pos). rewrite replay_use by (apply mon_cq, Ring). reflexivity.
     - rewrite replay_use by (apply mon_cq, Ring). reflexivity. }
-  destruct C as [Cb Co Cop Cc Cr].
   set (rest := fun o => count_sop o (k_sqq k1) + count_in o (k_inflight k1) + count_cop o (k_ovf k1)).
-  pose proof (process_all_good (k_cq k1) (s_ops s) rest) as P.
+  pose proof (process_all_good (k_cq k1) (s_ops s) rest (k_inflight k1) (k_ovf k1)) as P.
   destruct (process_all (s_ops s) (k_cq k1)) as [ops1 l2] eqn:EPA. cbn [fst snd] in *.
-  destruct P as (I1 & I2 & I3 & I4 & I5).
+  destruct P as (I1 & I2 & I3 & I4 & I5 & I6).
   { intros o. fold (get_op s o). rewrite <- (Co o), <- (O1 o). unfold owedk, rest.
     generalize (count_cop o (k_cq k1)) (count_sop o (k_sqq k1)) (count_in o (k_inflight k1)) (count_cop o (k_ovf k1)).
     clear. intros. lia. }
   { exact Cop. }
-  set (k2 := {| k_sqq := k_sqq k1; k_inflight := k_inflight k1; k_cq := []; k_ovf := k_ovf k1 |}).
+  { exact Cm1. }
+  { intros o. unfold rest. lia. }
+  set (k2 := {| k_sqq := k_sqq k1; k_inflight := k_inflight k1; k_first := k_first k1; k_cq := []; k_ovf := k_ovf k1 |}).
   split; [|split].
   - constructor.
     + intros o h. unfold get_op. cbn [s_ops set_ops s_fds set_k]. destruct (I3 o) as [A B]. rewrite A, B. apply Cb.
@@ -1087,11 +1436,20 @@ Proof.
     + intros o. unfold get_op. cbn [s_ops set_ops]. apply I2.
     + intros h. cbn [s_k set_ops set_k s_fds]. subst k2. cbn [k_sqq]. rewrite Q1. cbn. destruct (nth h (s_fds s) false); cbn; lia.
     + intros h. cbn [s_k set_ops set_k]. subst k2. cbn [k_sqq]. rewrite Q1. cbn. lia.
+    + cbn [s_k set_ops set_k]. subst k2. unfold pend. cbn [k_inflight k_cq k_ovf app].
+      apply (covered_suffix _ (k_cq k1)). exact Cm1.
   - constructor; try reflexivity. cbn [s_ops set_ops]. exact I4.
-  - rewrite replay_app, R1, replay_app. rewrite (I5 (s_d s) (mon_of s)) by reflexivity.
-    assert (set_box (mon_of s) (map o_box ops1) = mon_of (set_ops (set_k s k2) ops1)) as ->.
-    { unfold mon_of, set_box. cbn [s_rc s_ring s_ops s_pools s_fds s_k set_ops set_k m_sq m_sqes m_cq m_fd m_box m_reg m_pring m_pbufs m_desc].
-      subst k2. cbn [k_sqq]. rewrite Q, Q1. reflexivity. }
+  - rewrite replay_app, R1, replay_app. rewrite (I6 (s_d s) (mon_of s)).
+    2:{ reflexivity. }
+    2:{ intros o. unfold mon_of. cbn [m_due]. rewrite nth_seq_map. fold (kdue (s_k s) o). rewrite <- D1.
+        unfold kdue, due3. destruct (o <? length (s_ops s)); lia. }
+    assert (set_due (set_box (mon_of s) (map o_box ops1)) (process_due (k_cq k1) (m_due (mon_of s)))
+            = mon_of (set_ops (set_k s k2) ops1)) as ->.
+    { unfold mon_of, set_box, set_due. cbn [s_rc s_ring s_ops s_pools s_fds s_k set_ops set_k m_sq m_sqes m_cq m_fd m_box m_reg m_pring m_pbufs m_desc m_due].
+      subst k2. cbn [k_sqq k_inflight k_cq k_ovf]. rewrite Q, Q1. f_equal.
+      apply nat_list_ext; [rewrite process_due_length, !map_length, !seq_length; symmetry; exact I5|].
+      intros o. rewrite process_due_nth, !nth_seq_map, I5. fold (kdue (s_k s) o). rewrite <- D1.
+      unfold kdue, due3. change (count_cop o []) with 0. destruct (o <? length (s_ops s)); lia. }
     rewrite replay_use by (apply mon_cq; exact Ring). reflexivity.
 Qed.
 
@@ -1131,7 +1489,7 @@ Proof.
   set (s1 := fst (enter_all s false)) in *. set (l1 := snd (enter_all s false)) in *.
   assert ((0 <? s_rc s1) = true) as Pos1 by (rewrite (fr_rc _ _ (proj1 (proj2 G1))); exact Pos).
   pose proof (sync_cancel_good s1 (proj1 G1) Pos1) as G2.
-  set (s2 := set_k s1 (sync_cancel (d_cqn (s_d s1)) (s_k s1))) in *.
+  set (s2 := set_k s1 (sync_cancel (s_d s1) (s_k s1))) in *.
   assert ((0 <? s_rc s2) = true) as Pos2 by exact Pos1.
   rewrite (surjective_pairing (enter_all s2 true)).
   destruct (enter_all_good s2 true (proj1 G2) Pos2) as [G3 Q3].
@@ -1203,7 +1561,7 @@ Proof.
   set (s1 := fst (enter_all s false)) in *. set (l1 := snd (enter_all s false)) in *.
   assert ((0 <? s_rc s1) = true) as Pos1 by (rewrite (fr_rc _ _ (proj1 (proj2 G1))); exact Pos).
   pose proof (sync_cancel_good s1 (proj1 G1) Pos1) as G2.
-  set (s2 := set_k s1 (sync_cancel (d_cqn (s_d s1)) (s_k s1))) in *.
+  set (s2 := set_k s1 (sync_cancel (s_d s1) (s_k s1))) in *.
   assert ((0 <? s_rc s2) = true) as Pos2 by exact Pos1.
   assert (s_ring s2 = true) as Ring2.
   { change (s_ring s2) with (s_ring s1). rewrite (fr_ring _ _ (proj1 (proj2 G1))). exact Ring. }
@@ -1270,16 +1628,6 @@ Ltac crush :=
       end
   end; cbn in *.
 
-Lemma nth_upd_gen {A} i j (f : A -> A) l d :
-  nth j (upd i f l) d = if (j =? i) && (i <? length l) then f (nth i l d) else nth j l d.
-Proof.
-  destruct (Nat.eqb_spec j i) as [->|Hne]; cbn [andb].
-  - destruct (Nat.ltb_spec i (length l)).
-    + apply nth_upd_same; assumption.
-    + rewrite upd_out by lia. reflexivity.
-  - apply nth_upd_other. congruence.
-Qed.
-
 Lemma upd_mono {A} (g : A -> bool) i f l d j :
   (forall x, g (f x) = true -> g x = true) -> g (nth j (upd i f l) d) = true -> g (nth j l d) = true.
 Proof.
@@ -1320,8 +1668,8 @@ Proof. intros [] []. constructor; try congruence. all: intros o; rewrite sh_fut0
 Lemma process_all_fut cs : forall ops o, o_fut (nth o (fst (process_all ops cs)) dead_op) = o_fut (nth o ops dead_op).
 Proof.
   induction cs as [|c cs IH]; intros ops o; cbn [process_all]; [reflexivity|].
-  destruct c as [o1|]; cbn [process_one].
-  2:{ rewrite (surjective_pairing (process_all ops cs)). cbn [fst]. apply IH. }
+  destruct c as [o1|o1|]; cbn [process_one].
+  2,3: rewrite (surjective_pairing (process_all ops cs)); cbn [fst]; apply IH.
   destruct (o_st (nth o1 ops dead_op));
     rewrite (surjective_pairing (process_all _ cs)); cbn [fst]; rewrite IH; try reflexivity;
     rewrite nth_upd_gen; destruct ((o =? o1) && (o1 <? length ops)) eqn:E; try reflexivity;
@@ -1468,31 +1816,33 @@ Proof.
 Qed.
 
 (** * After the ring is gone *)
-Definition kempty (k : kern) : Prop := k_sqq k = [] /\ k_inflight k = [] /\ k_cq k = [] /\ k_ovf k = [].
+(** Nothing queued and nothing posted: what the kernel still owes is what is in flight. *)
+Definition kdrained (k : kern) : Prop := k_sqq k = [] /\ k_cq k = [] /\ k_ovf k = [].
 
 (** Completions pending at the drain of [Drop for Ring]: what is in the ring and on the overflow
-    list once the queued submissions have been consumed and everything in flight was cancelled. *)
+    list once the queued submissions have been consumed and everything in flight that can be
+    cancelled was cancelled. *)
 Definition drain_load (s : state) : nat :=
-  let cqn := d_cqn (s_d s) in
-  let k2 := sync_cancel cqn (flush_overflow cqn (consume_all cqn (s_k s))) in
+  let d := s_d s in
+  let k2 := sync_cancel d (flush_overflow (d_cqn d) (consume_all d (s_k s))) in
   length (k_cq k2) + length (k_ovf k2).
 
-Lemma drop_ring_kempty s :
-  s_ring s = true -> drain_load s <= d_cqn (s_d s) -> kempty (s_k (fst (drop_ring s))).
+Lemma drop_ring_kdrained s :
+  s_ring s = true -> drain_load s <= d_cqn (s_d s) -> kdrained (s_k (fst (drop_ring s))).
 Proof.
   intros R L. unfold drop_ring. rewrite R.
   rewrite (surjective_pairing (enter_all s false)), (surjective_pairing (enter_all _ true)), (surjective_pairing (cq_poll _)),
     (surjective_pairing (dec_shared _)). cbn [fst].
   change (s_k (fst (dec_shared (set_ring ?x false)))) with (s_k x).
   set (cqn := d_cqn (s_d s)) in *.
-  set (k2 := sync_cancel cqn (flush_overflow cqn (consume_all cqn (s_k s)))) in *.
-  set (s2 := set_k (fst (enter_all s false)) (sync_cancel (d_cqn (s_d (fst (enter_all s false)))) (s_k (fst (enter_all s false))))).
+  set (k2 := sync_cancel (s_d s) (flush_overflow cqn (consume_all (s_d s) (s_k s)))) in *.
+  set (s2 := set_k (fst (enter_all s false)) (sync_cancel (s_d (fst (enter_all s false))) (s_k (fst (enter_all s false))))).
   assert (s_k s2 = k2) as E2 by reflexivity.
   assert (k_sqq k2 = []) as Q2 by (subst k2; rewrite sync_cancel_sqq, flush_sqq; apply consume_all_sqq).
-  assert (k_inflight k2 = []) as I2 by (subst k2; apply sync_cancel_inflight).
   set (s3 := fst (enter_all s2 true)).
   assert (s_k s3 = flush_overflow cqn k2) as E3.
-  { subst s3. cbn [fst enter_all s_k set_k]. rewrite E2. change (d_cqn (s_d s2)) with cqn. rewrite consume_all_nil by exact Q2. reflexivity. }
+  { subst s3. cbn [fst enter_all s_k set_k]. rewrite E2. change (d_cqn (s_d s2)) with cqn. change (s_d s2) with (s_d s).
+    rewrite consume_all_nil by exact Q2. reflexivity. }
   assert (k_ovf (flush_overflow cqn k2) = []) as O3 by (apply flush_fits; unfold drain_load in L; exact L).
   rewrite cq_poll_k, poll_fetch_nil by (rewrite E3, flush_sqq; exact Q2).
   rewrite E3. change (d_cqn (s_d s3)) with cqn.
@@ -1502,12 +1852,12 @@ Proof.
   - repeat split; auto.
 Qed.
 
-Lemma drain_fixed_kempty fuel : forall s,
-  1 <= d_cqn (s_d s) -> k_sqq (s_k s) = [] -> k_inflight (s_k s) = [] ->
+Lemma drain_fixed_kdrained fuel : forall s,
+  1 <= d_cqn (s_d s) -> k_sqq (s_k s) = [] ->
   length (k_cq (s_k s)) + length (k_ovf (s_k s)) < fuel ->
-  kempty (s_k (fst (drain_fixed fuel s))).
+  kdrained (s_k (fst (drain_fixed fuel s))).
 Proof.
-  induction fuel as [|f IH]; intros s Hc Q I L; [lia|]. cbn [drain_fixed].
+  induction fuel as [|f IH]; intros s Hc Q L; [lia|]. cbn [drain_fixed].
   rewrite (surjective_pairing (enter_all s true)), (surjective_pairing (cq_poll _)).
   set (cqn := d_cqn (s_d s)) in *.
   set (s1 := fst (enter_all s true)).
@@ -1533,34 +1883,35 @@ Proof.
   - (* a pass that processes something *)
     rewrite C1. rewrite (surjective_pairing (drain_fixed f _)). cbn [fst].
     set (s2 := fst (cq_poll s1)).
-    assert (s_k s2 = {| k_sqq := k_sqq (s_k s1); k_inflight := k_inflight (s_k s1); k_cq := []; k_ovf := k_ovf (s_k s1) |}) as E2.
+    assert (s_k s2 = {| k_sqq := k_sqq (s_k s1); k_inflight := k_inflight (s_k s1); k_first := k_first (s_k s1);
+                        k_cq := []; k_ovf := k_ovf (s_k s1) |}) as E2.
     { subst s2. rewrite cq_poll_k, (poll_fetch_nil s1 Q1), C1. reflexivity. }
     apply IH.
     + subst s2. rewrite (sh_d _ _ (cq_poll_same s1)). exact Hc.
     + rewrite E2. exact Q1.
-    + rewrite E2. cbn [k_inflight]. rewrite E1. exact I.
     + rewrite E2. cbn [k_cq k_ovf length]. cbn [length] in FL. lia.
 Qed.
 
-Lemma drop_ring_fixed_kempty s :
-  s_ring s = true -> 1 <= d_cqn (s_d s) -> kempty (s_k (fst (drop_ring_fixed s))).
+Lemma drop_ring_fixed_kdrained s :
+  s_ring s = true -> 1 <= d_cqn (s_d s) -> kdrained (s_k (fst (drop_ring_fixed s))).
 Proof.
   intros R Hc. unfold drop_ring_fixed. rewrite R.
   rewrite (surjective_pairing (enter_all s false)), (surjective_pairing (drain_fixed _ _)), (surjective_pairing (dec_shared _)).
   cbn [fst]. change (s_k (fst (dec_shared (set_ring ?x false)))) with (s_k x).
-  apply drain_fixed_kempty.
+  apply drain_fixed_kdrained.
   - exact Hc.
   - cbn [s_k set_k]. rewrite sync_cancel_sqq. apply enter_all_sqq.
-  - cbn [s_k set_k]. apply sync_cancel_inflight.
   - lia.
 Qed.
 
-(** No operation waits for anything and the ring is gone. *)
-Definition quiet (s : state) : Prop := s_ring s = false /\ forall o, expect (get_op s o) = 0.
+(** Operation [o] waits for nothing. *)
+Definition quiet_op (s : state) (o : nat) : Prop := expect (get_op s o) = 0.
 
-Lemma kempty_quiet s : wf s -> s_ring s = false -> kempty (s_k s) -> quiet s.
+Lemma kdrained_quiet s o :
+  wf s -> kdrained (s_k s) -> mem_nat o (k_inflight (s_k s)) = false -> quiet_op s o.
 Proof.
-  intros [_ R] Ring (A & B & C & D). split; [exact Ring|]. intros o. rewrite <- (wf_owed _ R o). apply owedk_empty; assumption.
+  intros [_ R] (A & C & D) M. unfold quiet_op. rewrite <- (wf_owed _ R o). unfold owedk. rewrite A, C, D.
+  rewrite mem_nat_count in M. apply Nat.ltb_ge in M. cbn. lia.
 Qed.
 
 Ltac crush_k :=
@@ -1586,36 +1937,39 @@ Proof.
   - unfold drop_pool, dec_pool, dec_shared; crush; reflexivity.
   - unfold drop_buf, dec_pool, dec_shared; crush; reflexivity.
   - unfold kcomplete. destruct (mem_nat o1 (k_inflight (s_k s))) eqn:M; [|reflexivity].
-    cbn [fst s_k set_k]. rewrite post_owed. unfold owedk. cbn [k_sqq k_inflight k_cq k_ovf is_cop].
+    destruct (mem_nat o1 (k_first (s_k s))); cbn [fst s_k set_k]; rewrite post_owed;
+      unfold owedk; cbn [k_sqq k_inflight k_cq k_ovf is_cop b2n]; [lia|].
     destruct (Nat.eqb_spec o1 o) as [<-|Hne]; cbn [b2n].
     + pose proof (count_remove_same o1 _ M). lia.
     + rewrite (count_remove_other o1 o) by auto. lia.
 Qed.
 
-Lemma quiet_step dr s e :
+Lemma quiet_step dr s e o :
   ring_drop_shape dr -> (forall s, wf s -> step_good s (dr s)) ->
-  wf s -> ev_ok s e -> quiet s -> quiet (fst (step_with dr s e)).
+  wf s -> ev_ok s e -> s_ring s = false -> quiet_op s o ->
+  s_ring (fst (step_with dr s e)) = false /\ quiet_op (fst (step_with dr s e)) o.
 Proof.
-  intros Sh Hdr W Ok [R Q].
+  intros Sh Hdr W Ok R Q.
   pose proof (step_with_good dr s e Hdr W Ok) as ([_ R'] & _ & _).
   split.
   - pose proof (step_dead_mono dr s e ORing Sh (dead_ring s R)) as D. inversion D. assumption.
-  - intros o. rewrite <- (wf_owed _ R' o). rewrite step_owed; [|intros s0 R0; apply (proj1 (Sh s0) R0)|exact R].
+  - unfold quiet_op. rewrite <- (wf_owed _ R' o). rewrite step_owed; [|intros s0 R0; apply (proj1 (Sh s0) R0)|exact R].
     destruct W as [_ RW]. rewrite (wf_owed _ RW o). apply Q.
 Qed.
 
-Lemma quiet_run dr :
+Lemma quiet_run dr o :
   ring_drop_shape dr -> (forall s, wf s -> step_good s (dr s)) ->
-  forall es s, wf s -> borrows_ok (step_with dr) s es -> quiet s -> quiet (fst (run (step_with dr) s es)).
+  forall es s, wf s -> borrows_ok (step_with dr) s es -> s_ring s = false -> quiet_op s o ->
+    quiet_op (fst (run (step_with dr) s es)) o.
 Proof.
-  intros Sh Hdr. induction es as [|e es IH]; intros s W B Q; cbn [run]; [exact Q|].
-  destruct B as [Ok B]. pose proof (quiet_step dr s e Sh Hdr W Ok Q) as Q1.
+  intros Sh Hdr. induction es as [|e es IH]; intros s W B R Q; cbn [run]; [exact Q|].
+  destruct B as [Ok B]. pose proof (quiet_step dr s e o Sh Hdr W Ok R Q) as [R1 Q1].
   pose proof (step_with_good dr s e Hdr W Ok) as (W1 & _ & _).
   destruct (step_with dr s e) as [s1 l1]. cbn [fst] in *.
-  specialize (IH s1 W1 B Q1). destruct (run (step_with dr) s1 es). exact IH.
+  specialize (IH s1 W1 B R1 Q1). destruct (run (step_with dr) s1 es). exact IH.
 Qed.
 
-(** * The two named classes *)
+(** * The named classes *)
 (** H13: [AsyncFd] h is dropped (for real: it is live) at a moment when the [Ring] is gone. *)
 Definition fd_dropped_after_ring (st : state -> event -> state * list lev) (s : state) (es : list event) (h : nat) : Prop :=
   exists pre post, es = pre ++ Drop (OFd h) :: post /\
@@ -1627,6 +1981,15 @@ Definition abandoned_ops_beyond_cq_capacity (s : state) (es : list event) : Prop
   exists pre post, es = pre ++ Drop ORing :: post /\
     s_ring (fst (run step s pre)) = true /\
     d_cqn (s_d (fst (run step s pre))) < drain_load (fst (run step s pre)).
+
+(** H28: operation [o] is still in flight after the [Ring] was dropped — the request survived
+    the blanket cancellation (the kernel does not cancel it: REGISTER_SYNC_CANCEL timed out), or
+    it is a two-step request whose notification is outstanding. Nobody processes its completion
+    any more: its state (and the buffer in it) is never released. *)
+Definition op_in_flight_after_ring_drop (st : state -> event -> state * list lev) (s : state) (es : list event) (o : nat) : Prop :=
+  exists pre post, es = pre ++ Drop ORing :: post /\
+    s_ring (fst (run st s pre)) = true /\
+    mem_nat o (k_inflight (s_k (fst (st (fst (run st s pre)) (Drop ORing))))) = true.
 
 Definition not_leaked (h : nat) (s : state) : Prop := s_ring s = true \/ count_close h (k_sqq (s_k s)) = 0.
 
@@ -1667,7 +2030,8 @@ Proof.
       all: rewrite count_close_snoc; cbn [is_close b2n]; lia.
   - left. unfold drop_pool, dec_pool, dec_shared; crush_k; assumption.
   - left. unfold drop_buf, dec_pool, dec_shared; crush_k; assumption.
-  - left. unfold kcomplete. destruct (mem_nat _ _); [|exact NL]. cbn [fst s_ring s_k set_k]. rewrite post_sqq. exact NL.
+  - left. unfold kcomplete. destruct (mem_nat _ _); [|exact NL].
+    destruct (mem_nat _ _); cbn [fst s_ring s_k set_k]; rewrite post_sqq; exact NL.
 Qed.
 
 Lemma run_cons {S E O} (stp : S -> E -> S * list O) s e es :
@@ -1689,25 +2053,27 @@ Qed.
 Lemma event_eq_ring e : {e = Drop ORing} + {e <> Drop ORing}.
 Proof. destruct e as [[| | | | |]|]; try (right; discriminate). left. reflexivity. Qed.
 
-(** Outside H14, the ring's drop leaves nothing owed, and that stays so. *)
-Lemma run_quiet_step : forall es s,
+(** Outside H14 and H28, the ring's drop leaves nothing owed for [o], and that stays so. *)
+Lemma run_quiet_step o : forall es s,
   wf s -> borrows_ok step s es -> s_ring s = true -> In (Drop ORing) es ->
-  quiet (fst (run step s es)) \/ abandoned_ops_beyond_cq_capacity s es.
+  quiet_op (fst (run step s es)) o \/ abandoned_ops_beyond_cq_capacity s es \/ op_in_flight_after_ring_drop step s es o.
 Proof.
   induction es as [|e es IH]; intros s W B R HI; [destruct HI|].
   destruct B as [Ok B]. pose proof (step_good_step s e W Ok) as (W1 & _ & _).
   destruct (event_eq_ring e) as [->|Hne].
   - destruct (Nat.le_gt_cases (drain_load s) (d_cqn (s_d s))) as [Fit|Over].
-    + left. rewrite run_cons. apply (quiet_run drop_ring drop_ring_shape drop_ring_good); auto.
-      apply kempty_quiet; auto.
-      * pose proof (step_kills drop_ring s ORing drop_ring_shape) as D. inversion D. assumption.
-      * apply drop_ring_kempty; assumption.
-    + right. exists [], es. split; [reflexivity|]. split; [exact R|exact Over].
+    + destruct (mem_nat o (k_inflight (s_k (fst (step s (Drop ORing)))))) eqn:M.
+      * right. right. exists [], es. split; [reflexivity|]. split; [exact R|exact M].
+      * left. rewrite run_cons. apply (quiet_run drop_ring o drop_ring_shape drop_ring_good); auto.
+        -- pose proof (step_kills drop_ring s ORing drop_ring_shape) as D. inversion D. assumption.
+        -- apply kdrained_quiet; auto. apply drop_ring_kdrained; assumption.
+    + right. left. exists [], es. split; [reflexivity|]. split; [exact R|exact Over].
   - destruct HI as [E|HI]; [congruence|].
     assert (s_ring (fst (step s e)) = true) as R1 by (unfold step; rewrite step_ring_same by exact Hne; exact R).
-    destruct (IH _ W1 B R1 HI) as [Q|(pre & post & -> & R2 & L)].
+    destruct (IH _ W1 B R1 HI) as [Q|[(pre & post & -> & R2 & L)|(pre & post & -> & R2 & L)]].
     + left. rewrite run_cons. exact Q.
-    + right. exists (e :: pre), post. split; [reflexivity|]. rewrite run_cons. split; assumption.
+    + right. left. exists (e :: pre), post. split; [reflexivity|]. rewrite run_cons. split; assumption.
+    + right. right. exists (e :: pre), post. split; [reflexivity|]. rewrite run_cons. split; assumption.
 Qed.
 
 (** * Everything dropped *)
@@ -1764,7 +2130,7 @@ Lemma final_state_facts s :
   let m := mon_of s in
   m_sq m = false /\ m_sqes m = false /\ m_cq m = false /\ m_fd m = false /\
   (forall p, nth p (m_reg m) false = false /\ nth p (m_pring m) false = false /\ nth p (m_pbufs m) false = false) /\
-  (forall o, nth o (m_box m) false = true -> ~ quiet s) /\
+  (forall o, nth o (m_box m) false = true -> ~ quiet_op s o) /\
   (forall h, nth h (m_desc m) false = true -> ~ not_leaked h s).
 Proof.
   intros W D. pose proof (all_dead_released s W D) as [Z P]. destruct W as [Hrc R]. cbn zeta.
@@ -1774,9 +2140,10 @@ Proof.
   - rewrite nth_poolflag. fold (get_pool s p). rewrite P. reflexivity.
   - rewrite nth_poolflag. fold (get_pool s p). rewrite P. reflexivity.
   - rewrite nth_poolflag. fold (get_pool s p). rewrite P. reflexivity.
-  - intros o Bx [_ Q]. rewrite nth_box in Bx. fold (get_op s o) in Bx.
+  - intros o Bx Q. rewrite nth_box in Bx. fold (get_op s o) in Bx.
     pose proof (D (OOp o)) as Do. inversion Do; subst.
-    destruct (wf_op _ R o) as [_ B]. specialize (B H1 Bx). specialize (Q o). unfold expect in Q. rewrite B, Bx in Q. discriminate.
+    destruct (wf_op _ R o) as [_ B]. destruct (B H1) as [_ B']. specialize (B' Bx).
+    unfold quiet_op, expect in Q. rewrite B', Bx in Q. discriminate.
   - intros h Dh [NL|NL]; [congruence|].
     rewrite desc_of_nth in Dh by apply (wf_close_range _ R).
     pose proof (D (OFd h)) as Df. inversion Df; subst. rewrite H1, NL in Dh. discriminate.
@@ -1784,12 +2151,15 @@ Qed.
 
 (** * The theorems *)
 (** Memory safety, for any object population in any state satisfying the invariant and any order
-    of drops the borrow checker accepts (with kernel completions anywhere): the log replays
-    against the resource monitor. By the definition of [replay] that means: no access to a mapping
-    after its munmap, each munmap with the mapping's own length and at most once, no system call
-    on the ring descriptor after its close, the close after the three munmaps, no allocation freed
-    twice or used after its free, pool memory freed only after the unregistration, no descriptor
-    closed twice. *)
+    of drops the borrow checker accepts (with kernel completions anywhere, also after the [Ring]
+    is gone): the log replays against the resource monitor. By the definition of [replay] that
+    means: no access to a mapping after its munmap, each munmap with the mapping's own length and
+    at most once, no system call on the ring descriptor after its close, the close after the
+    three munmaps, no allocation freed twice or used after its free, pool memory freed only after
+    the unregistration, no descriptor closed twice, AND — without any exclusion, operations that
+    survive the blanket cancellation and two-step operations included — the completion handler
+    only ever touches an allocated operation state, and no operation state is released while a
+    request of that operation is in flight or its final completion is still to be processed. *)
 Definition teardown_memory_safe : Prop :=
   forall s es, wf s -> borrows_ok step s es ->
     exists m, replay (s_d s) (mon_of s) (snd (run step s es)) = Some m.
@@ -1800,16 +2170,29 @@ Proof.
   eexists. exact R.
 Qed.
 
+(** The same for the code as it is (the repaired drain). *)
+Definition teardown_memory_safe_fixed : Prop :=
+  forall s es, wf s -> borrows_ok step_fixed s es ->
+    exists m, replay (s_d s) (mon_of s) (snd (run step_fixed s es)) = Some m.
+
+Theorem teardown_memory_safe_fixed_holds : teardown_memory_safe_fixed.
+Proof.
+  intros s es W B. destruct (run_good step_fixed step_good_step_fixed es s W B) as (_ & R & _).
+  eexists. exact R.
+Qed.
+
 (** Release, when in addition every live object is dropped: afterwards nothing is mapped, the
     ring descriptor is closed, no pool is registered or allocated, and what remains is named:
-    a live operation state implies H14, an open [AsyncFd] descriptor implies H13. Together with
-    the replay ("at most once") this is "exactly once" for everything that was held. *)
+    a live operation state implies H14 or H28 (that very operation was still in flight after the
+    Ring was dropped), an open [AsyncFd] descriptor implies H13. Together with the replay ("at
+    most once") this is "exactly once" for everything that was held. *)
 Definition teardown_releases_everything : Prop :=
   forall s es, wf s -> s_ring s = true -> borrows_ok step s es -> covers s es ->
     exists m, replay (s_d s) (mon_of s) (snd (run step s es)) = Some m /\
       m_sq m = false /\ m_sqes m = false /\ m_cq m = false /\ m_fd m = false /\
       (forall p, nth p (m_reg m) false = false /\ nth p (m_pring m) false = false /\ nth p (m_pbufs m) false = false) /\
-      (forall o, nth o (m_box m) false = true -> abandoned_ops_beyond_cq_capacity s es) /\
+      (forall o, nth o (m_box m) false = true ->
+         abandoned_ops_beyond_cq_capacity s es \/ op_in_flight_after_ring_drop step s es o) /\
       (forall h, nth h (m_desc m) false = true -> fd_dropped_after_ring step s es h).
 
 Theorem teardown_releases_everything_holds : teardown_releases_everything.
@@ -1819,36 +2202,40 @@ Proof.
   pose proof (all_dead drop_ring s es drop_ring_shape Cov) as D. fold step in D.
   pose proof (final_state_facts _ Wf D) as (A1 & A2 & A3 & A4 & A5 & A6 & A7).
   exists (mon_of (fst (run step s es))). repeat split; auto; try apply A5.
-  - intros o Bx. destruct (run_quiet_step es s W B Ring (proj1 Cov Ring)) as [Q|C]; [|exact C].
+  - intros o Bx. destruct (run_quiet_step o es s W B Ring (proj1 Cov Ring)) as [Q|C]; [|exact C].
     exfalso. exact (A6 o Bx Q).
   - intros h Dh. destruct (run_leak drop_ring h drop_ring_shape es s (or_introl Ring)) as [NL|C]; [|exact C].
     exfalso. exact (A7 h Dh NL).
 Qed.
 
-(** The repaired drain ([drop_ring_fixed]): no exception for operation states. *)
+(** The repaired drain ([drop_ring_fixed], the code as it is): no exception for the size of the
+    completion queue; what remains is H28 and H13. *)
 Definition teardown_releases_everything_fixed : Prop :=
   forall s es, wf s -> s_ring s = true -> 1 <= d_cqn (s_d s) -> borrows_ok step_fixed s es -> covers s es ->
     exists m, replay (s_d s) (mon_of s) (snd (run step_fixed s es)) = Some m /\
       m_sq m = false /\ m_sqes m = false /\ m_cq m = false /\ m_fd m = false /\
       (forall p, nth p (m_reg m) false = false /\ nth p (m_pring m) false = false /\ nth p (m_pbufs m) false = false) /\
-      (forall o, nth o (m_box m) false = false) /\
+      (forall o, nth o (m_box m) false = true -> op_in_flight_after_ring_drop step_fixed s es o) /\
       (forall h, nth h (m_desc m) false = true -> fd_dropped_after_ring step_fixed s es h).
 
-Lemma run_quiet_fixed : forall es s,
+Lemma run_quiet_fixed o : forall es s,
   wf s -> borrows_ok step_fixed s es -> s_ring s = true -> 1 <= d_cqn (s_d s) -> In (Drop ORing) es ->
-  quiet (fst (run step_fixed s es)).
+  quiet_op (fst (run step_fixed s es)) o \/ op_in_flight_after_ring_drop step_fixed s es o.
 Proof.
   induction es as [|e es IH]; intros s W B R Hc HI; [destruct HI|].
   destruct B as [Ok B]. pose proof (step_good_step_fixed s e W Ok) as (W1 & _ & D1).
-  rewrite run_cons. destruct (event_eq_ring e) as [->|Hne].
-  - apply (quiet_run drop_ring_fixed drop_ring_fixed_shape drop_ring_fixed_good); auto.
-    apply kempty_quiet; auto.
-    + pose proof (step_kills drop_ring_fixed s ORing drop_ring_fixed_shape) as D. inversion D. assumption.
-    + apply drop_ring_fixed_kempty; assumption.
+  destruct (event_eq_ring e) as [->|Hne].
+  - destruct (mem_nat o (k_inflight (s_k (fst (step_fixed s (Drop ORing)))))) eqn:M.
+    + right. exists [], es. split; [reflexivity|]. split; [exact R|exact M].
+    + left. rewrite run_cons. apply (quiet_run drop_ring_fixed o drop_ring_fixed_shape drop_ring_fixed_good); auto.
+      * pose proof (step_kills drop_ring_fixed s ORing drop_ring_fixed_shape) as D. inversion D. assumption.
+      * apply kdrained_quiet; auto. apply drop_ring_fixed_kdrained; assumption.
   - destruct HI as [E|HI]; [congruence|].
-    apply IH; auto.
+    destruct (IH (fst (step_fixed s e)) W1 B) as [Q|(pre & post & -> & R2 & L)]; auto.
     + unfold step_fixed. rewrite step_ring_same by exact Hne. exact R.
     + rewrite D1. exact Hc.
+    + left. rewrite run_cons. exact Q.
+    + right. exists (e :: pre), post. split; [reflexivity|]. rewrite run_cons. split; assumption.
 Qed.
 
 Theorem teardown_releases_everything_fixed_holds : teardown_releases_everything_fixed.
@@ -1858,8 +2245,8 @@ Proof.
   pose proof (all_dead drop_ring_fixed s es drop_ring_fixed_shape Cov) as D. fold step_fixed in D.
   pose proof (final_state_facts _ Wf D) as (A1 & A2 & A3 & A4 & A5 & A6 & A7).
   exists (mon_of (fst (run step_fixed s es))). repeat split; auto; try apply A5.
-  - intros o. destruct (nth o (m_box (mon_of (fst (run step_fixed s es)))) false) eqn:Bx; [|reflexivity].
-    exfalso. apply (A6 o Bx). apply run_quiet_fixed; auto. apply (proj1 Cov Ring).
+  - intros o Bx. destruct (run_quiet_fixed o es s W B Ring Hc (proj1 Cov Ring)) as [Q|C]; [|exact C].
+    exfalso. exact (A6 o Bx Q).
   - intros h Dh. destruct (run_leak drop_ring_fixed h drop_ring_fixed_shape es s (or_introl Ring)) as [NL|C]; [|exact C].
     exfalso. exact (A7 h Dh NL).
 Qed.
@@ -1919,7 +2306,7 @@ Proof. unfold count_close. rewrite count_if_map. apply count_if_none with (d := 
 Lemma init_wf pp : pop_ok pp -> wf (init pp).
 Proof.
   intros [Hops Hbufs]. set (d0 := (@None nat, INotStarted)).
-  set (mk := fun x : option nat * ist => {| o_on := fst x; o_fut := true; o_st := st_of (snd x); o_box := true |}).
+  set (mk := fun x : option nat * ist => {| o_on := fst x; o_fut := fut_of (snd x); o_st := st_of (snd x); o_box := box_of (snd x) |}).
   assert (forall o, get_op (init pp) o = if o <? length (pp_ops pp) then mk (nth o (pp_ops pp) d0) else dead_op) as G.
   { intros o. unfold get_op, init. cbn [s_ops]. destruct (Nat.ltb_spec o (length (pp_ops pp))).
     - apply nth_map_lt. assumption.
@@ -1927,7 +2314,7 @@ Proof.
   split.
   - unfold init, holders. cbn [s_rc s_ring s_clones s_fds s_ops s_pools b2n].
     rewrite !count_if_repeat_true, !count_if_map.
-    rewrite (count_if_ext _ owns_sq) by (intros [[h|] i]; reflexivity).
+    rewrite (count_if_ext _ owns_sq) by (intros [[h|] i]; cbn; rewrite ?andb_false_r, ?andb_true_r; reflexivity).
     rewrite (count_if_all (fun x => 0 <? p_rc _)) by reflexivity. rewrite seq_length. unfold count_if. lia.
   - constructor.
     + intros p. unfold pool_refs, get_pool, init. cbn [s_pools s_bufs].
@@ -1942,18 +2329,22 @@ Proof.
            cbn beta in Hbufs. apply Nat.eqb_neq. clear - Hbufs Hge. lia.
         -- rewrite nth_overflow by exact Hi. apply Nat.eqb_neq. clear - Hge. lia.
     + intros o h. rewrite G. destruct (Nat.ltb_spec o (length (pp_ops pp))) as [Hlt|]; [|discriminate].
-      intros _ On. cbn in On. unfold init. cbn [s_fds]. rewrite nth_repeat_true. apply Nat.ltb_lt.
+      intros _ On. cbn [mk o_on] in On. unfold init. cbn [s_fds]. rewrite nth_repeat_true. apply Nat.ltb_lt.
       rewrite Forall_forall in Hops. specialize (Hops _ (nth_In _ d0 Hlt)). cbn beta in Hops. rewrite On in Hops. exact Hops.
     + intros o. rewrite G. unfold owedk, init. cbn [s_k k_sqq k_inflight k_cq k_ovf].
       rewrite count_sop_map, !(count_in_indices _ d0) by reflexivity. cbn [Nat.leb]. rewrite Nat.sub_0_r.
       change (count_cop o []) with 0.
       destruct (Nat.ltb_spec o (length (pp_ops pp))) as [Hlt|Hge].
-      * unfold expect, mk. cbn [o_st o_box]. destruct (nth o (pp_ops pp) d0) as [on [| | | |]]; reflexivity.
+      * unfold expect, mk. cbn [o_st o_box]. destruct (nth o (pp_ops pp) d0) as [on [| | | | | | |]]; reflexivity.
       * rewrite nth_overflow by exact Hge. reflexivity.
-    + intros o. rewrite G. destruct (_ <? _); split; cbn; try discriminate.
-      intros _. split; [reflexivity|]. destruct (snd _); discriminate.
+    + intros o. rewrite G. destruct (_ <? _).
+      * unfold mk, op_ok. cbn [o_fut o_st o_box]. destruct (snd (nth o (pp_ops pp) d0)); cbn;
+          (split; [intros F; first [discriminate F|split; [reflexivity|discriminate]]
+                  |intros F; first [discriminate F|split; [discriminate|intros; first [reflexivity|discriminate]]]]).
+      * split; cbn; [discriminate|]. intros _. split; discriminate.
     + intros h. unfold init. cbn [s_k k_sqq s_fds]. rewrite count_close_map_sop. destruct (nth h _ false); cbn; lia.
     + intros h. unfold init. cbn [s_k k_sqq]. rewrite count_close_map_sop. lia.
+    + exact I.
 Qed.
 
 (** * What a successful replay says, in plain terms *)
@@ -1997,6 +2388,7 @@ Definition uses (e : lev) (r : res) : bool :=
   | LRegister _, RFd => true
   | LUsePool p, RPring p' => p' =? p
   | LUsePool p, RPbufs p' => p' =? p
+  | LProcess o _, RBox o' => o' =? o
   | _, _ => false
   end.
 
@@ -2017,11 +2409,12 @@ Lemma replay1_sound d m e m' r :
   held m' r = held m r && negb (releases e r).
 Proof.
   intros H.
-  destruct e as [x|n g|[h|o|o]|[|p]|x len| |h|p|[o|p|p]]; cbn [replay1] in H;
+  destruct e as [x|n g|[h|o|o]|[|p]|x len| |h|p|o [|]|[o|p|p]]; cbn [replay1] in H;
     repeat match type of H with
     | (if ?c then _ else _) = Some _ => destruct c eqn:?; [|discriminate]
     end;
     inversion H; subst; clear H;
+    unfold set_desc, set_box, set_reg, set_pring, set_pbufs, set_fdopen, set_due in *;
     destruct r as [y| |o'|p'|p'|p'|h']; try destruct x; try destruct y;
     cbn [uses releases needs_released held mapped unmap mapping_eqb orb andb negb
          m_sq m_sqes m_cq m_fd m_box m_reg m_pring m_pbufs m_desc] in *;
@@ -2087,10 +2480,14 @@ Definition log_safe (d : dims) (l : list lev) : Prop :=
   (forall l1 l2, l = l1 ++ LCloseRing :: l2 ->
      ~ In LCloseRing l2 /\ (forall n g, ~ In (LEnter n g) l2) /\ (forall r, ~ In (LRegister r) l2) /\
      (forall x len, ~ In (LMunmap x len) l2) /\ (forall x, ~ In (LUse x) l2)) /\
-  (* an allocation is freed at most once and a pool's memory is not used after it *)
+  (* an allocation is freed at most once; a pool's memory is not used after it, and the completion
+     handler does not touch an operation state after it *)
   (forall l1 a l2, l = l1 ++ LFree a :: l2 ->
      ~ In (LFree a) l2 /\
-     match a with APoolRing p | APoolBufs p => ~ In (LUsePool p) l2 /\ ~ In (LRegister (RUnregPbuf p)) l2 | ABox _ => True end) /\
+     match a with
+     | APoolRing p | APoolBufs p => ~ In (LUsePool p) l2 /\ ~ In (LRegister (RUnregPbuf p)) l2
+     | ABox o => forall final, ~ In (LProcess o final) l2
+     end) /\
   (* a descriptor is closed at most once, by the kernel or by close(2) *)
   (forall l1 h l2, l = l1 ++ LConsumed (SClose h) :: l2 \/ l = l1 ++ LSysClose h :: l2 ->
      ~ In (LConsumed (SClose h)) l2 /\ ~ In (LSysClose h) l2).
@@ -2141,6 +2538,7 @@ Proof.
     pose proof (fun r => replay_after_needs d m l1 _ l2 m' r H) as B.
     destruct a as [o|p|p]; split; auto.
     + intros I. absurd_use A I (RBox o).
+    + intros final I. absurd_use A I (RBox o).
     + intros I. absurd_use A I (RPring p).
     + split; intros I; [absurd_use A I (RPring p)|absurd_use B I (RReg p)].
     + intros I. absurd_use A I (RPbufs p).
@@ -2149,14 +2547,77 @@ Proof.
       split; intros I; absurd_use A I (RDesc h).
 Qed.
 
+(** What [m_due] says about a log that replays: per operation, what was due at the start plus the
+    requests the kernel accepted since is at most what is due now plus the final completions
+    processed since. *)
+Definition is_accept (o : nat) (e : lev) : bool := match e with LConsumed (SOp o') => o' =? o | _ => false end.
+Definition is_final (o : nat) (e : lev) : bool := match e with LProcess o' true => o' =? o | _ => false end.
+
+Lemma replay1_due d m e m' o :
+  replay1 d m e = Some m' ->
+  length (m_due m') = length (m_due m) /\
+  (o < length (m_due m) ->
+   nth o (m_due m) 0 + b2n (is_accept o e) <= nth o (m_due m') 0 + b2n (is_final o e)).
+Proof.
+  intros H.
+  destruct e as [x|n g|[h|o1|o1]|[|p]|x len| |h|p|o1 [|]|[o1|p|p]]; cbn [replay1] in H;
+    repeat match type of H with
+    | (if ?c then _ else _) = Some _ => destruct c eqn:?; [|discriminate]
+    end;
+    inversion H; subst; clear H;
+    unfold unmap, set_desc, set_box, set_reg, set_pring, set_pbufs, set_fdopen, set_due; cbn [m_due is_accept is_final b2n];
+    rewrite ?upd_length; (split; [reflexivity|intros Hlt]); try lia.
+  - rewrite nth_upd_gen, (Nat.eqb_sym o1 o). destruct (Nat.eqb_spec o o1) as [->|Hne]; cbn [andb b2n]; [|lia].
+    apply Nat.ltb_lt in Hlt. rewrite Hlt. lia.
+  - rewrite nth_upd_gen, (Nat.eqb_sym o1 o). destruct (Nat.eqb_spec o o1) as [->|Hne]; cbn [andb b2n]; [|lia].
+    apply Nat.ltb_lt in Hlt. rewrite Hlt. lia.
+Qed.
+
+Lemma replay_due d l : forall m m' o,
+  replay d m l = Some m' -> o < length (m_due m) ->
+  nth o (m_due m) 0 + count_if (is_accept o) l <= nth o (m_due m') 0 + count_if (is_final o) l.
+Proof.
+  induction l as [|e l IH]; intros m m' o H Hlt; cbn [replay] in H.
+  - inversion H; subst. unfold count_if. cbn. lia.
+  - destruct (replay1 d m e) as [m1|] eqn:E; [|discriminate].
+    destruct (replay1_due d m e m1 o E) as [L1 S1]. specialize (S1 Hlt).
+    specialize (IH m1 m' o H ltac:(rewrite L1; exact Hlt)). rewrite !count_if_cons. lia.
+Qed.
+
+(** When an operation state is released, every request of that operation the kernel accepted —
+    before the start ([due0]) or in the log so far — has had its final completion processed:
+    nothing of it is in flight, no final completion of it is still to be processed. *)
+Definition log_due_safe (due0 : list nat) (l : list lev) : Prop :=
+  forall l1 o l2, l = l1 ++ LFree (ABox o) :: l2 -> o < length due0 ->
+    nth o due0 0 + count_if (is_accept o) l1 <= count_if (is_final o) l1.
+
+Lemma replay_log_due_safe d m l m' : replay d m l = Some m' -> log_due_safe (m_due m) l.
+Proof.
+  intros H l1 o l2 -> Hlt. apply replay_split in H. destruct H as (m1 & m2 & H1 & E & _).
+  pose proof (replay_due d l1 m m1 o H1 Hlt) as B. cbn [replay1] in E.
+  destruct (nth o (m_box m1) false && (nth o (m_due m1) 0 =? 0)) eqn:C; [|discriminate].
+  apply andb_prop in C. destruct C as [_ C]. apply Nat.eqb_eq in C. lia.
+Qed.
+
 (** * Plain-terms corollaries *)
 Definition teardown_log_safe : Prop :=
-  forall s es, wf s -> borrows_ok step s es -> log_safe (s_d s) (snd (run step s es)).
+  forall s es, wf s -> borrows_ok step s es ->
+    log_safe (s_d s) (snd (run step s es)) /\ log_due_safe (m_due (mon_of s)) (snd (run step s es)).
 
 Theorem teardown_log_safe_holds : teardown_log_safe.
 Proof.
   intros s es W B. destruct (teardown_memory_safe_holds s es W B) as [m R].
-  exact (replay_log_safe _ _ _ _ R).
+  split; [exact (replay_log_safe _ _ _ _ R)|exact (replay_log_due_safe _ _ _ _ R)].
+Qed.
+
+Definition teardown_log_safe_fixed : Prop :=
+  forall s es, wf s -> borrows_ok step_fixed s es ->
+    log_safe (s_d s) (snd (run step_fixed s es)) /\ log_due_safe (m_due (mon_of s)) (snd (run step_fixed s es)).
+
+Theorem teardown_log_safe_fixed_holds : teardown_log_safe_fixed.
+Proof.
+  intros s es W B. destruct (teardown_memory_safe_fixed_holds s es W B) as [m R].
+  split; [exact (replay_log_safe _ _ _ _ R)|exact (replay_log_due_safe _ _ _ _ R)].
 Qed.
 
 (** Exactly once: whatever the monitor held at the start and does not hold at the end was released
@@ -2179,13 +2640,31 @@ Definition teardown_of_populations : Prop :=
       log_safe (pp_d pp) (snd (run step (init pp) es)) /\
       m_sq m = false /\ m_sqes m = false /\ m_cq m = false /\ m_fd m = false /\
       (forall p, nth p (m_reg m) false = false /\ nth p (m_pring m) false = false /\ nth p (m_pbufs m) false = false) /\
-      (forall o, nth o (m_box m) false = true -> abandoned_ops_beyond_cq_capacity (init pp) es) /\
+      (forall o, nth o (m_box m) false = true ->
+         abandoned_ops_beyond_cq_capacity (init pp) es \/ op_in_flight_after_ring_drop step (init pp) es o) /\
       (forall h, nth h (m_desc m) false = true -> fd_dropped_after_ring step (init pp) es h).
 
 Theorem teardown_of_populations_holds : teardown_of_populations.
 Proof.
   intros pp es Ok B C. pose proof (init_wf pp Ok) as W.
   destruct (teardown_releases_everything_holds (init pp) es W eq_refl B C) as (m & R & Rest).
+  exists m. split; [exact R|]. split; [exact (replay_log_safe _ _ _ _ R)|exact Rest].
+Qed.
+
+(** ... and for the code as it is (the repaired drain). *)
+Definition teardown_of_populations_fixed : Prop :=
+  forall pp es, pop_ok pp -> 1 <= d_cqn (pp_d pp) -> borrows_ok step_fixed (init pp) es -> covers (init pp) es ->
+    exists m, replay (pp_d pp) (mon_of (init pp)) (snd (run step_fixed (init pp) es)) = Some m /\
+      log_safe (pp_d pp) (snd (run step_fixed (init pp) es)) /\
+      m_sq m = false /\ m_sqes m = false /\ m_cq m = false /\ m_fd m = false /\
+      (forall p, nth p (m_reg m) false = false /\ nth p (m_pring m) false = false /\ nth p (m_pbufs m) false = false) /\
+      (forall o, nth o (m_box m) false = true -> op_in_flight_after_ring_drop step_fixed (init pp) es o) /\
+      (forall h, nth h (m_desc m) false = true -> fd_dropped_after_ring step_fixed (init pp) es h).
+
+Theorem teardown_of_populations_fixed_holds : teardown_of_populations_fixed.
+Proof.
+  intros pp es Ok Hc B C. pose proof (init_wf pp Ok) as W.
+  destruct (teardown_releases_everything_fixed_holds (init pp) es W eq_refl Hc B C) as (m & R & Rest).
   exists m. split; [exact R|]. split; [exact (replay_log_safe _ _ _ _ R)|exact Rest].
 Qed.
 
@@ -2263,7 +2742,8 @@ Proof.
 Qed.
 
 (** * Witnesses *)
-Definition dims22 : dims := {| d_sqn := 2; d_cqn := 2; d_len_sq := 8; d_len_sqes := 128; d_len_cq := 224 |}.
+Definition dims22 : dims :=
+  {| d_sqn := 2; d_cqn := 2; d_len_sq := 8; d_len_sqes := 128; d_len_cq := 224; d_two := []; d_surv := [] |}.
 
 (** H13: ring, then the fd. *)
 Definition pop_h13 : population :=
@@ -2318,7 +2798,7 @@ Proof. eexists. split; [vm_compute; reflexivity|repeat split; reflexivity]. Qed.
 
 (** Non-vacuity: a population with every kind of object, an order the borrow checker accepts. *)
 Definition pop_all : population :=
-  {| pp_d := {| d_sqn := 4; d_cqn := 4; d_len_sq := 16; d_len_sqes := 256; d_len_cq := 256 |};
+  {| pp_d := {| d_sqn := 4; d_cqn := 4; d_len_sq := 16; d_len_sqes := 256; d_len_cq := 256; d_two := []; d_surv := [] |};
      pp_clones := 1; pp_fds := 2;
      pp_ops := [(Some 0, IInflight); (None, IQueued); (Some 1, INotStarted); (Some 1, IDone); (None, IFinished)];
      pp_pools := 1; pp_bufs := [0; 0] |}.
@@ -2331,6 +2811,162 @@ Example hypotheses_satisfiable :
   exists m, replay (pp_d pop_all) (mon_of (init pop_all)) (snd (run step (init pop_all) order_all)) = Some m /\
             m_fd m = false /\ m_box m = [false; false; false; false; false] /\ m_reg m = [false] /\
             m_desc m = [false; true].
+Proof.
+  decide_case.
+  eexists. split; [vm_compute; reflexivity|repeat split; reflexivity].
+Qed.
+
+(** * Operations still in flight after the Ring was dropped (H28), two-step operations *)
+Definition dims22x (two surv : list nat) : dims :=
+  {| d_sqn := 2; d_cqn := 2; d_len_sq := 8; d_len_sqes := 128; d_len_cq := 224; d_two := two; d_surv := surv |}.
+
+(** H28, first sort: a read the kernel does not cancel. The ring is dropped (REGISTER_SYNC_CANCEL
+    leaves the request in flight), the kernel finishes the request later, the future and its
+    descriptor are dropped: the state is never released. *)
+Definition pop_h28 : population :=
+  {| pp_d := dims22x [] [0]; pp_clones := 0; pp_fds := 1; pp_ops := [(Some 0, IInflight)]; pp_pools := 0; pp_bufs := [] |}.
+Definition order_h28 : list event := [Drop ORing; KComplete 0; Drop (OOp 0); Drop (OFd 0)].
+
+(** H28, second sort: a zero-copy send whose result was processed; the notification is
+    outstanding when the ring is dropped and arrives afterwards. *)
+Definition pop_h28_zc : population :=
+  {| pp_d := dims22x [0] []; pp_clones := 0; pp_fds := 1; pp_ops := [(Some 0, IMid)]; pp_pools := 0; pp_bufs := [] |}.
+Definition order_h28_zc : list event := [Drop ORing; Drop (OOp 0); KComplete 0; Drop (OFd 0)].
+
+Lemma op_in_flight_after_ring_drop_refuted :
+  exists pp es, pop_ok pp /\ covers (init pp) es /\ borrows_ok step_fixed (init pp) es /\
+    exists m, replay (pp_d pp) (mon_of (init pp)) (snd (run step_fixed (init pp) es)) = Some m /\
+              nth 0 (m_box m) false = true /\ m_fd m = false.
+Proof.
+  exists pop_h28, order_h28. decide_case.
+  eexists. split; [vm_compute; reflexivity|split; reflexivity].
+Qed.
+
+Lemma op_in_flight_after_ring_drop_refuted_notification :
+  exists pp es, pop_ok pp /\ covers (init pp) es /\ borrows_ok step_fixed (init pp) es /\
+    exists m, replay (pp_d pp) (mon_of (init pp)) (snd (run step_fixed (init pp) es)) = Some m /\
+              nth 0 (m_box m) false = true /\ m_fd m = false.
+Proof.
+  exists pop_h28_zc, order_h28_zc. decide_case.
+  eexists. split; [vm_compute; reflexivity|split; reflexivity].
+Qed.
+
+(** Both are instances of the class the theorem names. *)
+Example h28_class_inhabited :
+  op_in_flight_after_ring_drop step_fixed (init pop_h28) order_h28 0 /\
+  op_in_flight_after_ring_drop step_fixed (init pop_h28_zc) order_h28_zc 0.
+Proof.
+  split; [exists [], [KComplete 0; Drop (OOp 0); Drop (OFd 0)]|exists [], [Drop (OOp 0); KComplete 0; Drop (OFd 0)]];
+    (split; [reflexivity|split; vm_compute; reflexivity]).
+Qed.
+
+(** The completion handler [po := process_one] in the generic drop is the drop as it is. *)
+Lemma process_all_w_process_one ops cs : process_all_w process_one ops cs = process_all ops cs.
+Proof.
+  revert ops; induction cs as [|c cs IH]; intros ops; cbn [process_all_w process_all]; [reflexivity|].
+  destruct (process_one ops c) as [ops1 l1]. rewrite IH. reflexivity.
+Qed.
+
+Lemma cq_poll_w_process_one s : cq_poll_w process_one s = cq_poll s.
+Proof. unfold cq_poll_w, cq_poll. destruct (poll_fetch s) as [k1 l1]. rewrite process_all_w_process_one. reflexivity. Qed.
+
+Lemma drain_w_process_one fuel : forall s, drain_w process_one fuel s = drain_fixed fuel s.
+Proof.
+  induction fuel as [|f IH]; intros s; cbn [drain_w drain_fixed]; [reflexivity|].
+  destruct (enter_all s true) as [s1 l1]. rewrite cq_poll_w_process_one. destruct (cq_poll s1) as [s2 l2].
+  rewrite IH. reflexivity.
+Qed.
+
+Lemma drop_ring_w_process_one s : drop_ring_w process_one s = drop_ring_fixed s.
+Proof.
+  unfold drop_ring_w, drop_ring_fixed. destruct (s_ring s); [|reflexivity].
+  destruct (enter_all s false) as [s1 l1]. rewrite drain_w_process_one. reflexivity.
+Qed.
+
+(** Seeded change C12-c (the state of an abandoned two-step operation is released on its result
+    completion). A zero-copy send is abandoned before its first completion; the kernel posts the
+    result; the ring is dropped: its drain processes the result and — in the changed code —
+    releases the state while the request is in flight (the notification is outstanding). The
+    code as it is replays; the changed code does not, and its log violates [log_due_safe]. *)
+Definition pop_zc : population :=
+  {| pp_d := dims22x [0] []; pp_clones := 0; pp_fds := 1; pp_ops := [(Some 0, IInflight)]; pp_pools := 0; pp_bufs := [] |}.
+Definition order_c12c : list event := [Drop (OOp 0); KComplete 0; Drop ORing; Drop (OFd 0)].
+(** ... or everything happens inside the drop of the ring: the cancellation makes the request post
+    both completions; the drain releases the state on the first and the handler uses the
+    released state on the second. *)
+Definition order_c12c_drain : list event := [Drop (OOp 0); Drop ORing; Drop (OFd 0)].
+
+Lemma c12c_releases_state_in_flight_refuted :
+  exists pp es, pop_ok pp /\ covers (init pp) es /\ borrows_ok step_fixed (init pp) es /\
+    (exists m, replay (pp_d pp) (mon_of (init pp)) (snd (run step_fixed (init pp) es)) = Some m) /\
+    replay (pp_d pp) (mon_of (init pp)) (snd (run step_c12c (init pp) es)) = None /\
+    ~ log_due_safe (m_due (mon_of (init pp))) (snd (run step_c12c (init pp) es)).
+Proof.
+  exists pop_zc, order_c12c. decide_case.
+  split; [eexists; vm_compute; reflexivity|]. split; [vm_compute; reflexivity|].
+  intros H.
+  specialize (H [LUse MSq; LUse MSqes; LUse MSq; LUse MSq; LEnter 1 false; LConsumed (SCancel 0); LRegister RSyncCancel;
+                 LUse MSq; LEnter 0 true; LUse MCq; LUse MCq; LProcess 0 false] 0).
+  vm_compute in H. specialize (H _ eq_refl). lia.
+Qed.
+
+Lemma c12c_uses_released_state_in_drain_refuted :
+  exists pp es, pop_ok pp /\ covers (init pp) es /\ borrows_ok step_fixed (init pp) es /\
+    (exists m, replay (pp_d pp) (mon_of (init pp)) (snd (run step_fixed (init pp) es)) = Some m /\ m_box m = [false]) /\
+    replay (pp_d pp) (mon_of (init pp)) (snd (run step_c12c (init pp) es)) = None /\
+    exists l1 l2, snd (run step_c12c (init pp) es) = l1 ++ LFree (ABox 0) :: l2 /\ In (LProcess 0 true) l2.
+Proof.
+  exists pop_zc, order_c12c_drain. decide_case.
+  split; [eexists; split; vm_compute; reflexivity|]. split; [vm_compute; reflexivity|].
+  exists [LUse MSq; LUse MSqes; LUse MSq; LUse MSq; LEnter 1 false; LConsumed (SCancel 0); LRegister RSyncCancel;
+          LUse MSq; LEnter 0 true; LUse MCq; LUse MCq; LProcess 0 false].
+  eexists. split; [vm_compute; reflexivity|]. cbn. auto.
+Qed.
+
+(** Seeded change C01-f (once the Ring is gone [State::drop] releases the state of a running
+    operation at once). A read that survives the blanket cancellation — or a zero-copy send whose
+    notification is outstanding — is still in flight when its future is dropped after the Ring. *)
+Definition order_c01f : list event := [Drop ORing; Drop (OOp 0); Drop (OFd 0)].
+
+Lemma c01f_releases_state_in_flight_refuted :
+  exists pp es, pop_ok pp /\ covers (init pp) es /\ borrows_ok step_fixed (init pp) es /\
+    (exists m, replay (pp_d pp) (mon_of (init pp)) (snd (run step_fixed (init pp) es)) = Some m) /\
+    replay (pp_d pp) (mon_of (init pp)) (snd (run step_c01f (init pp) es)) = None /\
+    ~ log_due_safe (m_due (mon_of (init pp))) (snd (run step_c01f (init pp) es)).
+Proof.
+  exists pop_h28, order_c01f. decide_case.
+  split; [eexists; vm_compute; reflexivity|]. split; [vm_compute; reflexivity|].
+  intros H.
+  specialize (H [LUse MSq; LEnter 0 false; LRegister RSyncCancel; LUse MSq; LEnter 0 true; LUse MCq; LUse MCq;
+                 LUse MSq; LEnter 0 true; LUse MCq; LUse MCq; LUse MCq; LMunmap MCq 224] 0).
+  vm_compute in H. specialize (H _ eq_refl). lia.
+Qed.
+
+Lemma c01f_releases_state_notification_outstanding_refuted :
+  exists pp es, pop_ok pp /\ covers (init pp) es /\ borrows_ok step_fixed (init pp) es /\
+    (exists m, replay (pp_d pp) (mon_of (init pp)) (snd (run step_fixed (init pp) es)) = Some m) /\
+    replay (pp_d pp) (mon_of (init pp)) (snd (run step_c01f (init pp) es)) = None.
+Proof.
+  exists pop_h28_zc, order_c01f. decide_case.
+  split; [eexists; vm_compute; reflexivity|vm_compute; reflexivity].
+Qed.
+
+(** Non-vacuity for the new sorts of operation: a surviving read, a zero-copy send abandoned before
+    its first completion, one abandoned between the two and one whose notification arrives after
+    the Ring is gone; the hypotheses hold and the log replays. *)
+Definition pop_new : population :=
+  {| pp_d := {| d_sqn := 4; d_cqn := 2; d_len_sq := 16; d_len_sqes := 256; d_len_cq := 224; d_two := [1; 2; 3]; d_surv := [0; 3] |};
+     pp_clones := 1; pp_fds := 2;
+     pp_ops := [(Some 0, IInflight); (Some 0, IInflight); (Some 1, IAbMid); (Some 1, IQueued); (Some 1, IAbDone)];
+     pp_pools := 0; pp_bufs := [] |}.
+Definition order_new : list event :=
+  [Drop (OOp 1); KComplete 1; KComplete 2; Drop (OOp 3); Drop ORing; KComplete 0; Drop (OOp 0); KComplete 3;
+   Drop (OFd 1); KComplete 3; Drop (OFd 0); Drop (OClone 0)].
+
+Example hypotheses_satisfiable_new_sorts :
+  pop_ok pop_new /\ covers (init pop_new) order_new /\ borrows_ok step_fixed (init pop_new) order_new /\
+  exists m, replay (pp_d pop_new) (mon_of (init pop_new)) (snd (run step_fixed (init pop_new) order_new)) = Some m /\
+            m_fd m = false /\ m_box m = [true; true; false; true; false] /\ m_desc m = [true; true].
 Proof.
   decide_case.
   eexists. split; [vm_compute; reflexivity|repeat split; reflexivity].
